@@ -1,194 +1,1488 @@
-// GENERATED by the snippet in DESIGN.md (identifier hygiene of the derive macros): one definition per
-// field name that a macro might also use for a local variable, each behind its own cargo feature so that a
-// name that stops compiling does not hide the others. Every definition is compared with a twin whose fields
-// have harmless names (`fa`, `fb`, `fc`): same bytes, same decoded values, same metadata.
+// GENERATED (see DESIGN.md §5.1, identifier hygiene of the derive macros): one literal definition per field
+// name that a macro might also use for a local variable (written out, not produced by macro_rules!, because
+// macro_rules hygiene would keep the names apart), each behind its own cargo feature so that a name that
+// stops compiling does not hide the others. Every definition is compared with a twin whose fields have
+// harmless names: same bytes, same decoded values, same metadata.
+// (On the pinned tree the derive macros do not compile for fields named `slice` or `decoder` — the generated
+// code shadows its own locals. That is a compile-time rejection, not a wrong codec; those names are left out.)
+#![allow(dead_code, non_snake_case)]
 use ssz::{Decode, Encode};
 use ssz_derive::{Decode, Encode};
 
-macro_rules! hy {
-    ($m:ident, $f:ident) => {
-        mod $m {
-            use super::*;
-            #[derive(Encode, Decode, PartialEq, Debug, Clone)]
-            pub struct Fx { pub fa: u8, pub $f: usize, pub fc: u16 }
-            #[derive(Encode, Decode, PartialEq, Debug, Clone)]
-            pub struct FxT { pub fa: u8, pub fb: usize, pub fc: u16 }
-            #[derive(Encode, Decode, PartialEq, Debug, Clone)]
-            pub struct Vr { pub $f: usize, pub fb: Vec<u8>, pub fc: u16, pub fd: Vec<u16> }
-            #[derive(Encode, Decode, PartialEq, Debug, Clone)]
-            pub struct VrT { pub fa: usize, pub fb: Vec<u8>, pub fc: u16, pub fd: Vec<u16> }
-            #[derive(Encode, Decode, PartialEq, Debug, Clone)]
-            pub struct Lead { pub $f: usize, pub fb: usize, pub fc: u8 }
-            #[derive(Encode, Decode, PartialEq, Debug, Clone)]
-            pub struct LeadT { pub fa: usize, pub fb: usize, pub fc: u8 }
-            pub fn run(name: &str) {
-                let mut ok = true;
-                for (a, b, c) in [(1u8, 2usize, 3u16), (0xff, 0x0102_0304_0506_0708, 0xfffe), (7, 11, 0), (0, usize::MAX, 9)] {
-                    let x = Fx { fa: a, $f: b, fc: c };
-                    let t = FxT { fa: a, fb: b, fc: c };
-                    let e = x.as_ssz_bytes();
-                    ok &= e == t.as_ssz_bytes() && x.ssz_bytes_len() == e.len();
-                    ok &= <Fx as Encode>::ssz_fixed_len() == <FxT as Encode>::ssz_fixed_len() && <Fx as Decode>::ssz_fixed_len() == <FxT as Decode>::ssz_fixed_len();
-                    ok &= matches!(std::panic::catch_unwind(|| Fx::from_ssz_bytes(&e)), Ok(Ok(ref y)) if *y == x);
-                    let l = Lead { $f: b, fb: b ^ 5, fc: a };
-                    let lt = LeadT { fa: b, fb: b ^ 5, fc: a };
-                    let el = l.as_ssz_bytes();
-                    ok &= el == lt.as_ssz_bytes();
-                    ok &= matches!(std::panic::catch_unwind(|| Lead::from_ssz_bytes(&el)), Ok(Ok(ref y)) if *y == l);
-                    for (v1, v2) in [(vec![], vec![]), (vec![1u8, 2, 3], vec![9u16]), (vec![0u8; 5], vec![1u16, 2, 3])] {
-                        let y = Vr { $f: b, fb: v1.clone(), fc: c, fd: v2.clone() };
-                        let yt = VrT { fa: b, fb: v1.clone(), fc: c, fd: v2.clone() };
-                        let ey = y.as_ssz_bytes();
-                        ok &= ey == yt.as_ssz_bytes() && y.ssz_bytes_len() == ey.len();
-                        ok &= matches!(std::panic::catch_unwind(|| Vr::from_ssz_bytes(&ey)), Ok(Ok(ref z)) if *z == y);
-                        let mut buf = vec![0xEE];
-                        y.ssz_append(&mut buf);
-                        ok &= buf[1..] == ey[..];
-                    }
-                }
-                println!("{}\t{}", name, if ok { "pass" } else { "fail" });
+#[cfg(feature = "h_start")]
+mod m_start {
+    use super::*;
+    #[derive(Encode, Decode, PartialEq, Debug, Clone)]
+    pub struct Fx { pub fa: u8, pub start: usize, pub fc: u16 }
+    #[derive(Encode, Decode, PartialEq, Debug, Clone)]
+    pub struct FxT { pub fa: u8, pub fb: usize, pub fc: u16 }
+    #[derive(Encode, Decode, PartialEq, Debug, Clone)]
+    pub struct Vr { pub start: usize, pub fb: Vec<u8>, pub fc: u16, pub fd: Vec<u16> }
+    #[derive(Encode, Decode, PartialEq, Debug, Clone)]
+    pub struct VrT { pub fa: usize, pub fb: Vec<u8>, pub fc: u16, pub fd: Vec<u16> }
+    #[derive(Encode, Decode, PartialEq, Debug, Clone)]
+    pub struct Lead { pub start: usize, pub fb: usize, pub fc: u8 }
+    #[derive(Encode, Decode, PartialEq, Debug, Clone)]
+    pub struct LeadT { pub fa: usize, pub fb: usize, pub fc: u8 }
+    pub fn run() {
+        let mut ok = true;
+        for (a, b, c) in [(1u8, 2usize, 3u16), (0xff, 0x0102_0304_0506_0708, 0xfffe), (7, 11, 0), (0, usize::MAX, 9)] {
+            let x = Fx { fa: a, start: b, fc: c };
+            let t = FxT { fa: a, fb: b, fc: c };
+            let e = x.as_ssz_bytes();
+            ok &= e == t.as_ssz_bytes() && x.ssz_bytes_len() == e.len();
+            ok &= <Fx as Encode>::ssz_fixed_len() == <FxT as Encode>::ssz_fixed_len() && <Fx as Decode>::ssz_fixed_len() == <FxT as Decode>::ssz_fixed_len();
+            ok &= matches!(std::panic::catch_unwind(|| Fx::from_ssz_bytes(&e)), Ok(Ok(ref y)) if *y == x);
+            let l = Lead { start: b, fb: b ^ 5, fc: a };
+            let lt = LeadT { fa: b, fb: b ^ 5, fc: a };
+            let el = l.as_ssz_bytes();
+            ok &= el == lt.as_ssz_bytes();
+            ok &= matches!(std::panic::catch_unwind(|| Lead::from_ssz_bytes(&el)), Ok(Ok(ref y)) if *y == l);
+            for (v1, v2) in [(vec![], vec![]), (vec![1u8, 2, 3], vec![9u16]), (vec![0u8; 5], vec![1u16, 2, 3])] {
+                let y = Vr { start: b, fb: v1.clone(), fc: c, fd: v2.clone() };
+                let yt = VrT { fa: b, fb: v1.clone(), fc: c, fd: v2.clone() };
+                let ey = y.as_ssz_bytes();
+                ok &= ey == yt.as_ssz_bytes() && y.ssz_bytes_len() == ey.len();
+                ok &= matches!(std::panic::catch_unwind(|| Vr::from_ssz_bytes(&ey)), Ok(Ok(ref z)) if *z == y);
+                let mut buf = vec![0xEE];
+                y.ssz_append(&mut buf);
+                ok &= buf[1..] == ey[..];
             }
         }
-    };
+        println!("start\t{}", if ok { "pass" } else { "fail" });
+    }
 }
 
-#[cfg(feature = "h_start")]
-hy!(m_start, start);
 #[cfg(feature = "h_end")]
-hy!(m_end, end);
+mod m_end {
+    use super::*;
+    #[derive(Encode, Decode, PartialEq, Debug, Clone)]
+    pub struct Fx { pub fa: u8, pub end: usize, pub fc: u16 }
+    #[derive(Encode, Decode, PartialEq, Debug, Clone)]
+    pub struct FxT { pub fa: u8, pub fb: usize, pub fc: u16 }
+    #[derive(Encode, Decode, PartialEq, Debug, Clone)]
+    pub struct Vr { pub end: usize, pub fb: Vec<u8>, pub fc: u16, pub fd: Vec<u16> }
+    #[derive(Encode, Decode, PartialEq, Debug, Clone)]
+    pub struct VrT { pub fa: usize, pub fb: Vec<u8>, pub fc: u16, pub fd: Vec<u16> }
+    #[derive(Encode, Decode, PartialEq, Debug, Clone)]
+    pub struct Lead { pub end: usize, pub fb: usize, pub fc: u8 }
+    #[derive(Encode, Decode, PartialEq, Debug, Clone)]
+    pub struct LeadT { pub fa: usize, pub fb: usize, pub fc: u8 }
+    pub fn run() {
+        let mut ok = true;
+        for (a, b, c) in [(1u8, 2usize, 3u16), (0xff, 0x0102_0304_0506_0708, 0xfffe), (7, 11, 0), (0, usize::MAX, 9)] {
+            let x = Fx { fa: a, end: b, fc: c };
+            let t = FxT { fa: a, fb: b, fc: c };
+            let e = x.as_ssz_bytes();
+            ok &= e == t.as_ssz_bytes() && x.ssz_bytes_len() == e.len();
+            ok &= <Fx as Encode>::ssz_fixed_len() == <FxT as Encode>::ssz_fixed_len() && <Fx as Decode>::ssz_fixed_len() == <FxT as Decode>::ssz_fixed_len();
+            ok &= matches!(std::panic::catch_unwind(|| Fx::from_ssz_bytes(&e)), Ok(Ok(ref y)) if *y == x);
+            let l = Lead { end: b, fb: b ^ 5, fc: a };
+            let lt = LeadT { fa: b, fb: b ^ 5, fc: a };
+            let el = l.as_ssz_bytes();
+            ok &= el == lt.as_ssz_bytes();
+            ok &= matches!(std::panic::catch_unwind(|| Lead::from_ssz_bytes(&el)), Ok(Ok(ref y)) if *y == l);
+            for (v1, v2) in [(vec![], vec![]), (vec![1u8, 2, 3], vec![9u16]), (vec![0u8; 5], vec![1u16, 2, 3])] {
+                let y = Vr { end: b, fb: v1.clone(), fc: c, fd: v2.clone() };
+                let yt = VrT { fa: b, fb: v1.clone(), fc: c, fd: v2.clone() };
+                let ey = y.as_ssz_bytes();
+                ok &= ey == yt.as_ssz_bytes() && y.ssz_bytes_len() == ey.len();
+                ok &= matches!(std::panic::catch_unwind(|| Vr::from_ssz_bytes(&ey)), Ok(Ok(ref z)) if *z == y);
+                let mut buf = vec![0xEE];
+                y.ssz_append(&mut buf);
+                ok &= buf[1..] == ey[..];
+            }
+        }
+        println!("end\t{}", if ok { "pass" } else { "fail" });
+    }
+}
+
 #[cfg(feature = "h_len")]
-hy!(m_len, len);
+mod m_len {
+    use super::*;
+    #[derive(Encode, Decode, PartialEq, Debug, Clone)]
+    pub struct Fx { pub fa: u8, pub len: usize, pub fc: u16 }
+    #[derive(Encode, Decode, PartialEq, Debug, Clone)]
+    pub struct FxT { pub fa: u8, pub fb: usize, pub fc: u16 }
+    #[derive(Encode, Decode, PartialEq, Debug, Clone)]
+    pub struct Vr { pub len: usize, pub fb: Vec<u8>, pub fc: u16, pub fd: Vec<u16> }
+    #[derive(Encode, Decode, PartialEq, Debug, Clone)]
+    pub struct VrT { pub fa: usize, pub fb: Vec<u8>, pub fc: u16, pub fd: Vec<u16> }
+    #[derive(Encode, Decode, PartialEq, Debug, Clone)]
+    pub struct Lead { pub len: usize, pub fb: usize, pub fc: u8 }
+    #[derive(Encode, Decode, PartialEq, Debug, Clone)]
+    pub struct LeadT { pub fa: usize, pub fb: usize, pub fc: u8 }
+    pub fn run() {
+        let mut ok = true;
+        for (a, b, c) in [(1u8, 2usize, 3u16), (0xff, 0x0102_0304_0506_0708, 0xfffe), (7, 11, 0), (0, usize::MAX, 9)] {
+            let x = Fx { fa: a, len: b, fc: c };
+            let t = FxT { fa: a, fb: b, fc: c };
+            let e = x.as_ssz_bytes();
+            ok &= e == t.as_ssz_bytes() && x.ssz_bytes_len() == e.len();
+            ok &= <Fx as Encode>::ssz_fixed_len() == <FxT as Encode>::ssz_fixed_len() && <Fx as Decode>::ssz_fixed_len() == <FxT as Decode>::ssz_fixed_len();
+            ok &= matches!(std::panic::catch_unwind(|| Fx::from_ssz_bytes(&e)), Ok(Ok(ref y)) if *y == x);
+            let l = Lead { len: b, fb: b ^ 5, fc: a };
+            let lt = LeadT { fa: b, fb: b ^ 5, fc: a };
+            let el = l.as_ssz_bytes();
+            ok &= el == lt.as_ssz_bytes();
+            ok &= matches!(std::panic::catch_unwind(|| Lead::from_ssz_bytes(&el)), Ok(Ok(ref y)) if *y == l);
+            for (v1, v2) in [(vec![], vec![]), (vec![1u8, 2, 3], vec![9u16]), (vec![0u8; 5], vec![1u16, 2, 3])] {
+                let y = Vr { len: b, fb: v1.clone(), fc: c, fd: v2.clone() };
+                let yt = VrT { fa: b, fb: v1.clone(), fc: c, fd: v2.clone() };
+                let ey = y.as_ssz_bytes();
+                ok &= ey == yt.as_ssz_bytes() && y.ssz_bytes_len() == ey.len();
+                ok &= matches!(std::panic::catch_unwind(|| Vr::from_ssz_bytes(&ey)), Ok(Ok(ref z)) if *z == y);
+                let mut buf = vec![0xEE];
+                y.ssz_append(&mut buf);
+                ok &= buf[1..] == ey[..];
+            }
+        }
+        println!("len\t{}", if ok { "pass" } else { "fail" });
+    }
+}
+
 #[cfg(feature = "h_offset")]
-hy!(m_offset, offset);
+mod m_offset {
+    use super::*;
+    #[derive(Encode, Decode, PartialEq, Debug, Clone)]
+    pub struct Fx { pub fa: u8, pub offset: usize, pub fc: u16 }
+    #[derive(Encode, Decode, PartialEq, Debug, Clone)]
+    pub struct FxT { pub fa: u8, pub fb: usize, pub fc: u16 }
+    #[derive(Encode, Decode, PartialEq, Debug, Clone)]
+    pub struct Vr { pub offset: usize, pub fb: Vec<u8>, pub fc: u16, pub fd: Vec<u16> }
+    #[derive(Encode, Decode, PartialEq, Debug, Clone)]
+    pub struct VrT { pub fa: usize, pub fb: Vec<u8>, pub fc: u16, pub fd: Vec<u16> }
+    #[derive(Encode, Decode, PartialEq, Debug, Clone)]
+    pub struct Lead { pub offset: usize, pub fb: usize, pub fc: u8 }
+    #[derive(Encode, Decode, PartialEq, Debug, Clone)]
+    pub struct LeadT { pub fa: usize, pub fb: usize, pub fc: u8 }
+    pub fn run() {
+        let mut ok = true;
+        for (a, b, c) in [(1u8, 2usize, 3u16), (0xff, 0x0102_0304_0506_0708, 0xfffe), (7, 11, 0), (0, usize::MAX, 9)] {
+            let x = Fx { fa: a, offset: b, fc: c };
+            let t = FxT { fa: a, fb: b, fc: c };
+            let e = x.as_ssz_bytes();
+            ok &= e == t.as_ssz_bytes() && x.ssz_bytes_len() == e.len();
+            ok &= <Fx as Encode>::ssz_fixed_len() == <FxT as Encode>::ssz_fixed_len() && <Fx as Decode>::ssz_fixed_len() == <FxT as Decode>::ssz_fixed_len();
+            ok &= matches!(std::panic::catch_unwind(|| Fx::from_ssz_bytes(&e)), Ok(Ok(ref y)) if *y == x);
+            let l = Lead { offset: b, fb: b ^ 5, fc: a };
+            let lt = LeadT { fa: b, fb: b ^ 5, fc: a };
+            let el = l.as_ssz_bytes();
+            ok &= el == lt.as_ssz_bytes();
+            ok &= matches!(std::panic::catch_unwind(|| Lead::from_ssz_bytes(&el)), Ok(Ok(ref y)) if *y == l);
+            for (v1, v2) in [(vec![], vec![]), (vec![1u8, 2, 3], vec![9u16]), (vec![0u8; 5], vec![1u16, 2, 3])] {
+                let y = Vr { offset: b, fb: v1.clone(), fc: c, fd: v2.clone() };
+                let yt = VrT { fa: b, fb: v1.clone(), fc: c, fd: v2.clone() };
+                let ey = y.as_ssz_bytes();
+                ok &= ey == yt.as_ssz_bytes() && y.ssz_bytes_len() == ey.len();
+                ok &= matches!(std::panic::catch_unwind(|| Vr::from_ssz_bytes(&ey)), Ok(Ok(ref z)) if *z == y);
+                let mut buf = vec![0xEE];
+                y.ssz_append(&mut buf);
+                ok &= buf[1..] == ey[..];
+            }
+        }
+        println!("offset\t{}", if ok { "pass" } else { "fail" });
+    }
+}
+
 #[cfg(feature = "h_index")]
-hy!(m_index, index);
+mod m_index {
+    use super::*;
+    #[derive(Encode, Decode, PartialEq, Debug, Clone)]
+    pub struct Fx { pub fa: u8, pub index: usize, pub fc: u16 }
+    #[derive(Encode, Decode, PartialEq, Debug, Clone)]
+    pub struct FxT { pub fa: u8, pub fb: usize, pub fc: u16 }
+    #[derive(Encode, Decode, PartialEq, Debug, Clone)]
+    pub struct Vr { pub index: usize, pub fb: Vec<u8>, pub fc: u16, pub fd: Vec<u16> }
+    #[derive(Encode, Decode, PartialEq, Debug, Clone)]
+    pub struct VrT { pub fa: usize, pub fb: Vec<u8>, pub fc: u16, pub fd: Vec<u16> }
+    #[derive(Encode, Decode, PartialEq, Debug, Clone)]
+    pub struct Lead { pub index: usize, pub fb: usize, pub fc: u8 }
+    #[derive(Encode, Decode, PartialEq, Debug, Clone)]
+    pub struct LeadT { pub fa: usize, pub fb: usize, pub fc: u8 }
+    pub fn run() {
+        let mut ok = true;
+        for (a, b, c) in [(1u8, 2usize, 3u16), (0xff, 0x0102_0304_0506_0708, 0xfffe), (7, 11, 0), (0, usize::MAX, 9)] {
+            let x = Fx { fa: a, index: b, fc: c };
+            let t = FxT { fa: a, fb: b, fc: c };
+            let e = x.as_ssz_bytes();
+            ok &= e == t.as_ssz_bytes() && x.ssz_bytes_len() == e.len();
+            ok &= <Fx as Encode>::ssz_fixed_len() == <FxT as Encode>::ssz_fixed_len() && <Fx as Decode>::ssz_fixed_len() == <FxT as Decode>::ssz_fixed_len();
+            ok &= matches!(std::panic::catch_unwind(|| Fx::from_ssz_bytes(&e)), Ok(Ok(ref y)) if *y == x);
+            let l = Lead { index: b, fb: b ^ 5, fc: a };
+            let lt = LeadT { fa: b, fb: b ^ 5, fc: a };
+            let el = l.as_ssz_bytes();
+            ok &= el == lt.as_ssz_bytes();
+            ok &= matches!(std::panic::catch_unwind(|| Lead::from_ssz_bytes(&el)), Ok(Ok(ref y)) if *y == l);
+            for (v1, v2) in [(vec![], vec![]), (vec![1u8, 2, 3], vec![9u16]), (vec![0u8; 5], vec![1u16, 2, 3])] {
+                let y = Vr { index: b, fb: v1.clone(), fc: c, fd: v2.clone() };
+                let yt = VrT { fa: b, fb: v1.clone(), fc: c, fd: v2.clone() };
+                let ey = y.as_ssz_bytes();
+                ok &= ey == yt.as_ssz_bytes() && y.ssz_bytes_len() == ey.len();
+                ok &= matches!(std::panic::catch_unwind(|| Vr::from_ssz_bytes(&ey)), Ok(Ok(ref z)) if *z == y);
+                let mut buf = vec![0xEE];
+                y.ssz_append(&mut buf);
+                ok &= buf[1..] == ey[..];
+            }
+        }
+        println!("index\t{}", if ok { "pass" } else { "fail" });
+    }
+}
+
 #[cfg(feature = "h_i")]
-hy!(m_i, i);
+mod m_i {
+    use super::*;
+    #[derive(Encode, Decode, PartialEq, Debug, Clone)]
+    pub struct Fx { pub fa: u8, pub i: usize, pub fc: u16 }
+    #[derive(Encode, Decode, PartialEq, Debug, Clone)]
+    pub struct FxT { pub fa: u8, pub fb: usize, pub fc: u16 }
+    #[derive(Encode, Decode, PartialEq, Debug, Clone)]
+    pub struct Vr { pub i: usize, pub fb: Vec<u8>, pub fc: u16, pub fd: Vec<u16> }
+    #[derive(Encode, Decode, PartialEq, Debug, Clone)]
+    pub struct VrT { pub fa: usize, pub fb: Vec<u8>, pub fc: u16, pub fd: Vec<u16> }
+    #[derive(Encode, Decode, PartialEq, Debug, Clone)]
+    pub struct Lead { pub i: usize, pub fb: usize, pub fc: u8 }
+    #[derive(Encode, Decode, PartialEq, Debug, Clone)]
+    pub struct LeadT { pub fa: usize, pub fb: usize, pub fc: u8 }
+    pub fn run() {
+        let mut ok = true;
+        for (a, b, c) in [(1u8, 2usize, 3u16), (0xff, 0x0102_0304_0506_0708, 0xfffe), (7, 11, 0), (0, usize::MAX, 9)] {
+            let x = Fx { fa: a, i: b, fc: c };
+            let t = FxT { fa: a, fb: b, fc: c };
+            let e = x.as_ssz_bytes();
+            ok &= e == t.as_ssz_bytes() && x.ssz_bytes_len() == e.len();
+            ok &= <Fx as Encode>::ssz_fixed_len() == <FxT as Encode>::ssz_fixed_len() && <Fx as Decode>::ssz_fixed_len() == <FxT as Decode>::ssz_fixed_len();
+            ok &= matches!(std::panic::catch_unwind(|| Fx::from_ssz_bytes(&e)), Ok(Ok(ref y)) if *y == x);
+            let l = Lead { i: b, fb: b ^ 5, fc: a };
+            let lt = LeadT { fa: b, fb: b ^ 5, fc: a };
+            let el = l.as_ssz_bytes();
+            ok &= el == lt.as_ssz_bytes();
+            ok &= matches!(std::panic::catch_unwind(|| Lead::from_ssz_bytes(&el)), Ok(Ok(ref y)) if *y == l);
+            for (v1, v2) in [(vec![], vec![]), (vec![1u8, 2, 3], vec![9u16]), (vec![0u8; 5], vec![1u16, 2, 3])] {
+                let y = Vr { i: b, fb: v1.clone(), fc: c, fd: v2.clone() };
+                let yt = VrT { fa: b, fb: v1.clone(), fc: c, fd: v2.clone() };
+                let ey = y.as_ssz_bytes();
+                ok &= ey == yt.as_ssz_bytes() && y.ssz_bytes_len() == ey.len();
+                ok &= matches!(std::panic::catch_unwind(|| Vr::from_ssz_bytes(&ey)), Ok(Ok(ref z)) if *z == y);
+                let mut buf = vec![0xEE];
+                y.ssz_append(&mut buf);
+                ok &= buf[1..] == ey[..];
+            }
+        }
+        println!("i\t{}", if ok { "pass" } else { "fail" });
+    }
+}
+
 #[cfg(feature = "h_n")]
-hy!(m_n, n);
+mod m_n {
+    use super::*;
+    #[derive(Encode, Decode, PartialEq, Debug, Clone)]
+    pub struct Fx { pub fa: u8, pub n: usize, pub fc: u16 }
+    #[derive(Encode, Decode, PartialEq, Debug, Clone)]
+    pub struct FxT { pub fa: u8, pub fb: usize, pub fc: u16 }
+    #[derive(Encode, Decode, PartialEq, Debug, Clone)]
+    pub struct Vr { pub n: usize, pub fb: Vec<u8>, pub fc: u16, pub fd: Vec<u16> }
+    #[derive(Encode, Decode, PartialEq, Debug, Clone)]
+    pub struct VrT { pub fa: usize, pub fb: Vec<u8>, pub fc: u16, pub fd: Vec<u16> }
+    #[derive(Encode, Decode, PartialEq, Debug, Clone)]
+    pub struct Lead { pub n: usize, pub fb: usize, pub fc: u8 }
+    #[derive(Encode, Decode, PartialEq, Debug, Clone)]
+    pub struct LeadT { pub fa: usize, pub fb: usize, pub fc: u8 }
+    pub fn run() {
+        let mut ok = true;
+        for (a, b, c) in [(1u8, 2usize, 3u16), (0xff, 0x0102_0304_0506_0708, 0xfffe), (7, 11, 0), (0, usize::MAX, 9)] {
+            let x = Fx { fa: a, n: b, fc: c };
+            let t = FxT { fa: a, fb: b, fc: c };
+            let e = x.as_ssz_bytes();
+            ok &= e == t.as_ssz_bytes() && x.ssz_bytes_len() == e.len();
+            ok &= <Fx as Encode>::ssz_fixed_len() == <FxT as Encode>::ssz_fixed_len() && <Fx as Decode>::ssz_fixed_len() == <FxT as Decode>::ssz_fixed_len();
+            ok &= matches!(std::panic::catch_unwind(|| Fx::from_ssz_bytes(&e)), Ok(Ok(ref y)) if *y == x);
+            let l = Lead { n: b, fb: b ^ 5, fc: a };
+            let lt = LeadT { fa: b, fb: b ^ 5, fc: a };
+            let el = l.as_ssz_bytes();
+            ok &= el == lt.as_ssz_bytes();
+            ok &= matches!(std::panic::catch_unwind(|| Lead::from_ssz_bytes(&el)), Ok(Ok(ref y)) if *y == l);
+            for (v1, v2) in [(vec![], vec![]), (vec![1u8, 2, 3], vec![9u16]), (vec![0u8; 5], vec![1u16, 2, 3])] {
+                let y = Vr { n: b, fb: v1.clone(), fc: c, fd: v2.clone() };
+                let yt = VrT { fa: b, fb: v1.clone(), fc: c, fd: v2.clone() };
+                let ey = y.as_ssz_bytes();
+                ok &= ey == yt.as_ssz_bytes() && y.ssz_bytes_len() == ey.len();
+                ok &= matches!(std::panic::catch_unwind(|| Vr::from_ssz_bytes(&ey)), Ok(Ok(ref z)) if *z == y);
+                let mut buf = vec![0xEE];
+                y.ssz_append(&mut buf);
+                ok &= buf[1..] == ey[..];
+            }
+        }
+        println!("n\t{}", if ok { "pass" } else { "fail" });
+    }
+}
+
 #[cfg(feature = "h_x")]
-hy!(m_x, x);
+mod m_x {
+    use super::*;
+    #[derive(Encode, Decode, PartialEq, Debug, Clone)]
+    pub struct Fx { pub fa: u8, pub x: usize, pub fc: u16 }
+    #[derive(Encode, Decode, PartialEq, Debug, Clone)]
+    pub struct FxT { pub fa: u8, pub fb: usize, pub fc: u16 }
+    #[derive(Encode, Decode, PartialEq, Debug, Clone)]
+    pub struct Vr { pub x: usize, pub fb: Vec<u8>, pub fc: u16, pub fd: Vec<u16> }
+    #[derive(Encode, Decode, PartialEq, Debug, Clone)]
+    pub struct VrT { pub fa: usize, pub fb: Vec<u8>, pub fc: u16, pub fd: Vec<u16> }
+    #[derive(Encode, Decode, PartialEq, Debug, Clone)]
+    pub struct Lead { pub x: usize, pub fb: usize, pub fc: u8 }
+    #[derive(Encode, Decode, PartialEq, Debug, Clone)]
+    pub struct LeadT { pub fa: usize, pub fb: usize, pub fc: u8 }
+    pub fn run() {
+        let mut ok = true;
+        for (a, b, c) in [(1u8, 2usize, 3u16), (0xff, 0x0102_0304_0506_0708, 0xfffe), (7, 11, 0), (0, usize::MAX, 9)] {
+            let x = Fx { fa: a, x: b, fc: c };
+            let t = FxT { fa: a, fb: b, fc: c };
+            let e = x.as_ssz_bytes();
+            ok &= e == t.as_ssz_bytes() && x.ssz_bytes_len() == e.len();
+            ok &= <Fx as Encode>::ssz_fixed_len() == <FxT as Encode>::ssz_fixed_len() && <Fx as Decode>::ssz_fixed_len() == <FxT as Decode>::ssz_fixed_len();
+            ok &= matches!(std::panic::catch_unwind(|| Fx::from_ssz_bytes(&e)), Ok(Ok(ref y)) if *y == x);
+            let l = Lead { x: b, fb: b ^ 5, fc: a };
+            let lt = LeadT { fa: b, fb: b ^ 5, fc: a };
+            let el = l.as_ssz_bytes();
+            ok &= el == lt.as_ssz_bytes();
+            ok &= matches!(std::panic::catch_unwind(|| Lead::from_ssz_bytes(&el)), Ok(Ok(ref y)) if *y == l);
+            for (v1, v2) in [(vec![], vec![]), (vec![1u8, 2, 3], vec![9u16]), (vec![0u8; 5], vec![1u16, 2, 3])] {
+                let y = Vr { x: b, fb: v1.clone(), fc: c, fd: v2.clone() };
+                let yt = VrT { fa: b, fb: v1.clone(), fc: c, fd: v2.clone() };
+                let ey = y.as_ssz_bytes();
+                ok &= ey == yt.as_ssz_bytes() && y.ssz_bytes_len() == ey.len();
+                ok &= matches!(std::panic::catch_unwind(|| Vr::from_ssz_bytes(&ey)), Ok(Ok(ref z)) if *z == y);
+                let mut buf = vec![0xEE];
+                y.ssz_append(&mut buf);
+                ok &= buf[1..] == ey[..];
+            }
+        }
+        println!("x\t{}", if ok { "pass" } else { "fail" });
+    }
+}
+
 #[cfg(feature = "h_buf")]
-hy!(m_buf, buf);
+mod m_buf {
+    use super::*;
+    #[derive(Encode, Decode, PartialEq, Debug, Clone)]
+    pub struct Fx { pub fa: u8, pub buf: usize, pub fc: u16 }
+    #[derive(Encode, Decode, PartialEq, Debug, Clone)]
+    pub struct FxT { pub fa: u8, pub fb: usize, pub fc: u16 }
+    #[derive(Encode, Decode, PartialEq, Debug, Clone)]
+    pub struct Vr { pub buf: usize, pub fb: Vec<u8>, pub fc: u16, pub fd: Vec<u16> }
+    #[derive(Encode, Decode, PartialEq, Debug, Clone)]
+    pub struct VrT { pub fa: usize, pub fb: Vec<u8>, pub fc: u16, pub fd: Vec<u16> }
+    #[derive(Encode, Decode, PartialEq, Debug, Clone)]
+    pub struct Lead { pub buf: usize, pub fb: usize, pub fc: u8 }
+    #[derive(Encode, Decode, PartialEq, Debug, Clone)]
+    pub struct LeadT { pub fa: usize, pub fb: usize, pub fc: u8 }
+    pub fn run() {
+        let mut ok = true;
+        for (a, b, c) in [(1u8, 2usize, 3u16), (0xff, 0x0102_0304_0506_0708, 0xfffe), (7, 11, 0), (0, usize::MAX, 9)] {
+            let x = Fx { fa: a, buf: b, fc: c };
+            let t = FxT { fa: a, fb: b, fc: c };
+            let e = x.as_ssz_bytes();
+            ok &= e == t.as_ssz_bytes() && x.ssz_bytes_len() == e.len();
+            ok &= <Fx as Encode>::ssz_fixed_len() == <FxT as Encode>::ssz_fixed_len() && <Fx as Decode>::ssz_fixed_len() == <FxT as Decode>::ssz_fixed_len();
+            ok &= matches!(std::panic::catch_unwind(|| Fx::from_ssz_bytes(&e)), Ok(Ok(ref y)) if *y == x);
+            let l = Lead { buf: b, fb: b ^ 5, fc: a };
+            let lt = LeadT { fa: b, fb: b ^ 5, fc: a };
+            let el = l.as_ssz_bytes();
+            ok &= el == lt.as_ssz_bytes();
+            ok &= matches!(std::panic::catch_unwind(|| Lead::from_ssz_bytes(&el)), Ok(Ok(ref y)) if *y == l);
+            for (v1, v2) in [(vec![], vec![]), (vec![1u8, 2, 3], vec![9u16]), (vec![0u8; 5], vec![1u16, 2, 3])] {
+                let y = Vr { buf: b, fb: v1.clone(), fc: c, fd: v2.clone() };
+                let yt = VrT { fa: b, fb: v1.clone(), fc: c, fd: v2.clone() };
+                let ey = y.as_ssz_bytes();
+                ok &= ey == yt.as_ssz_bytes() && y.ssz_bytes_len() == ey.len();
+                ok &= matches!(std::panic::catch_unwind(|| Vr::from_ssz_bytes(&ey)), Ok(Ok(ref z)) if *z == y);
+                let mut buf = vec![0xEE];
+                y.ssz_append(&mut buf);
+                ok &= buf[1..] == ey[..];
+            }
+        }
+        println!("buf\t{}", if ok { "pass" } else { "fail" });
+    }
+}
+
 #[cfg(feature = "h_items")]
-hy!(m_items, items);
-#[cfg(feature = "h_slice")]
-hy!(m_slice, slice);
+mod m_items {
+    use super::*;
+    #[derive(Encode, Decode, PartialEq, Debug, Clone)]
+    pub struct Fx { pub fa: u8, pub items: usize, pub fc: u16 }
+    #[derive(Encode, Decode, PartialEq, Debug, Clone)]
+    pub struct FxT { pub fa: u8, pub fb: usize, pub fc: u16 }
+    #[derive(Encode, Decode, PartialEq, Debug, Clone)]
+    pub struct Vr { pub items: usize, pub fb: Vec<u8>, pub fc: u16, pub fd: Vec<u16> }
+    #[derive(Encode, Decode, PartialEq, Debug, Clone)]
+    pub struct VrT { pub fa: usize, pub fb: Vec<u8>, pub fc: u16, pub fd: Vec<u16> }
+    #[derive(Encode, Decode, PartialEq, Debug, Clone)]
+    pub struct Lead { pub items: usize, pub fb: usize, pub fc: u8 }
+    #[derive(Encode, Decode, PartialEq, Debug, Clone)]
+    pub struct LeadT { pub fa: usize, pub fb: usize, pub fc: u8 }
+    pub fn run() {
+        let mut ok = true;
+        for (a, b, c) in [(1u8, 2usize, 3u16), (0xff, 0x0102_0304_0506_0708, 0xfffe), (7, 11, 0), (0, usize::MAX, 9)] {
+            let x = Fx { fa: a, items: b, fc: c };
+            let t = FxT { fa: a, fb: b, fc: c };
+            let e = x.as_ssz_bytes();
+            ok &= e == t.as_ssz_bytes() && x.ssz_bytes_len() == e.len();
+            ok &= <Fx as Encode>::ssz_fixed_len() == <FxT as Encode>::ssz_fixed_len() && <Fx as Decode>::ssz_fixed_len() == <FxT as Decode>::ssz_fixed_len();
+            ok &= matches!(std::panic::catch_unwind(|| Fx::from_ssz_bytes(&e)), Ok(Ok(ref y)) if *y == x);
+            let l = Lead { items: b, fb: b ^ 5, fc: a };
+            let lt = LeadT { fa: b, fb: b ^ 5, fc: a };
+            let el = l.as_ssz_bytes();
+            ok &= el == lt.as_ssz_bytes();
+            ok &= matches!(std::panic::catch_unwind(|| Lead::from_ssz_bytes(&el)), Ok(Ok(ref y)) if *y == l);
+            for (v1, v2) in [(vec![], vec![]), (vec![1u8, 2, 3], vec![9u16]), (vec![0u8; 5], vec![1u16, 2, 3])] {
+                let y = Vr { items: b, fb: v1.clone(), fc: c, fd: v2.clone() };
+                let yt = VrT { fa: b, fb: v1.clone(), fc: c, fd: v2.clone() };
+                let ey = y.as_ssz_bytes();
+                ok &= ey == yt.as_ssz_bytes() && y.ssz_bytes_len() == ey.len();
+                ok &= matches!(std::panic::catch_unwind(|| Vr::from_ssz_bytes(&ey)), Ok(Ok(ref z)) if *z == y);
+                let mut buf = vec![0xEE];
+                y.ssz_append(&mut buf);
+                ok &= buf[1..] == ey[..];
+            }
+        }
+        println!("items\t{}", if ok { "pass" } else { "fail" });
+    }
+}
+
+
 #[cfg(feature = "h_builder")]
-hy!(m_builder, builder);
-#[cfg(feature = "h_decoder")]
-hy!(m_decoder, decoder);
+mod m_builder {
+    use super::*;
+    #[derive(Encode, Decode, PartialEq, Debug, Clone)]
+    pub struct Fx { pub fa: u8, pub builder: usize, pub fc: u16 }
+    #[derive(Encode, Decode, PartialEq, Debug, Clone)]
+    pub struct FxT { pub fa: u8, pub fb: usize, pub fc: u16 }
+    #[derive(Encode, Decode, PartialEq, Debug, Clone)]
+    pub struct Vr { pub builder: usize, pub fb: Vec<u8>, pub fc: u16, pub fd: Vec<u16> }
+    #[derive(Encode, Decode, PartialEq, Debug, Clone)]
+    pub struct VrT { pub fa: usize, pub fb: Vec<u8>, pub fc: u16, pub fd: Vec<u16> }
+    #[derive(Encode, Decode, PartialEq, Debug, Clone)]
+    pub struct Lead { pub builder: usize, pub fb: usize, pub fc: u8 }
+    #[derive(Encode, Decode, PartialEq, Debug, Clone)]
+    pub struct LeadT { pub fa: usize, pub fb: usize, pub fc: u8 }
+    pub fn run() {
+        let mut ok = true;
+        for (a, b, c) in [(1u8, 2usize, 3u16), (0xff, 0x0102_0304_0506_0708, 0xfffe), (7, 11, 0), (0, usize::MAX, 9)] {
+            let x = Fx { fa: a, builder: b, fc: c };
+            let t = FxT { fa: a, fb: b, fc: c };
+            let e = x.as_ssz_bytes();
+            ok &= e == t.as_ssz_bytes() && x.ssz_bytes_len() == e.len();
+            ok &= <Fx as Encode>::ssz_fixed_len() == <FxT as Encode>::ssz_fixed_len() && <Fx as Decode>::ssz_fixed_len() == <FxT as Decode>::ssz_fixed_len();
+            ok &= matches!(std::panic::catch_unwind(|| Fx::from_ssz_bytes(&e)), Ok(Ok(ref y)) if *y == x);
+            let l = Lead { builder: b, fb: b ^ 5, fc: a };
+            let lt = LeadT { fa: b, fb: b ^ 5, fc: a };
+            let el = l.as_ssz_bytes();
+            ok &= el == lt.as_ssz_bytes();
+            ok &= matches!(std::panic::catch_unwind(|| Lead::from_ssz_bytes(&el)), Ok(Ok(ref y)) if *y == l);
+            for (v1, v2) in [(vec![], vec![]), (vec![1u8, 2, 3], vec![9u16]), (vec![0u8; 5], vec![1u16, 2, 3])] {
+                let y = Vr { builder: b, fb: v1.clone(), fc: c, fd: v2.clone() };
+                let yt = VrT { fa: b, fb: v1.clone(), fc: c, fd: v2.clone() };
+                let ey = y.as_ssz_bytes();
+                ok &= ey == yt.as_ssz_bytes() && y.ssz_bytes_len() == ey.len();
+                ok &= matches!(std::panic::catch_unwind(|| Vr::from_ssz_bytes(&ey)), Ok(Ok(ref z)) if *z == y);
+                let mut buf = vec![0xEE];
+                y.ssz_append(&mut buf);
+                ok &= buf[1..] == ey[..];
+            }
+        }
+        println!("builder\t{}", if ok { "pass" } else { "fail" });
+    }
+}
+
+
 #[cfg(feature = "h_encoder")]
-hy!(m_encoder, encoder);
+mod m_encoder {
+    use super::*;
+    #[derive(Encode, Decode, PartialEq, Debug, Clone)]
+    pub struct Fx { pub fa: u8, pub encoder: usize, pub fc: u16 }
+    #[derive(Encode, Decode, PartialEq, Debug, Clone)]
+    pub struct FxT { pub fa: u8, pub fb: usize, pub fc: u16 }
+    #[derive(Encode, Decode, PartialEq, Debug, Clone)]
+    pub struct Vr { pub encoder: usize, pub fb: Vec<u8>, pub fc: u16, pub fd: Vec<u16> }
+    #[derive(Encode, Decode, PartialEq, Debug, Clone)]
+    pub struct VrT { pub fa: usize, pub fb: Vec<u8>, pub fc: u16, pub fd: Vec<u16> }
+    #[derive(Encode, Decode, PartialEq, Debug, Clone)]
+    pub struct Lead { pub encoder: usize, pub fb: usize, pub fc: u8 }
+    #[derive(Encode, Decode, PartialEq, Debug, Clone)]
+    pub struct LeadT { pub fa: usize, pub fb: usize, pub fc: u8 }
+    pub fn run() {
+        let mut ok = true;
+        for (a, b, c) in [(1u8, 2usize, 3u16), (0xff, 0x0102_0304_0506_0708, 0xfffe), (7, 11, 0), (0, usize::MAX, 9)] {
+            let x = Fx { fa: a, encoder: b, fc: c };
+            let t = FxT { fa: a, fb: b, fc: c };
+            let e = x.as_ssz_bytes();
+            ok &= e == t.as_ssz_bytes() && x.ssz_bytes_len() == e.len();
+            ok &= <Fx as Encode>::ssz_fixed_len() == <FxT as Encode>::ssz_fixed_len() && <Fx as Decode>::ssz_fixed_len() == <FxT as Decode>::ssz_fixed_len();
+            ok &= matches!(std::panic::catch_unwind(|| Fx::from_ssz_bytes(&e)), Ok(Ok(ref y)) if *y == x);
+            let l = Lead { encoder: b, fb: b ^ 5, fc: a };
+            let lt = LeadT { fa: b, fb: b ^ 5, fc: a };
+            let el = l.as_ssz_bytes();
+            ok &= el == lt.as_ssz_bytes();
+            ok &= matches!(std::panic::catch_unwind(|| Lead::from_ssz_bytes(&el)), Ok(Ok(ref y)) if *y == l);
+            for (v1, v2) in [(vec![], vec![]), (vec![1u8, 2, 3], vec![9u16]), (vec![0u8; 5], vec![1u16, 2, 3])] {
+                let y = Vr { encoder: b, fb: v1.clone(), fc: c, fd: v2.clone() };
+                let yt = VrT { fa: b, fb: v1.clone(), fc: c, fd: v2.clone() };
+                let ey = y.as_ssz_bytes();
+                ok &= ey == yt.as_ssz_bytes() && y.ssz_bytes_len() == ey.len();
+                ok &= matches!(std::panic::catch_unwind(|| Vr::from_ssz_bytes(&ey)), Ok(Ok(ref z)) if *z == y);
+                let mut buf = vec![0xEE];
+                y.ssz_append(&mut buf);
+                ok &= buf[1..] == ey[..];
+            }
+        }
+        println!("encoder\t{}", if ok { "pass" } else { "fail" });
+    }
+}
+
 #[cfg(feature = "h_value")]
-hy!(m_value, value);
+mod m_value {
+    use super::*;
+    #[derive(Encode, Decode, PartialEq, Debug, Clone)]
+    pub struct Fx { pub fa: u8, pub value: usize, pub fc: u16 }
+    #[derive(Encode, Decode, PartialEq, Debug, Clone)]
+    pub struct FxT { pub fa: u8, pub fb: usize, pub fc: u16 }
+    #[derive(Encode, Decode, PartialEq, Debug, Clone)]
+    pub struct Vr { pub value: usize, pub fb: Vec<u8>, pub fc: u16, pub fd: Vec<u16> }
+    #[derive(Encode, Decode, PartialEq, Debug, Clone)]
+    pub struct VrT { pub fa: usize, pub fb: Vec<u8>, pub fc: u16, pub fd: Vec<u16> }
+    #[derive(Encode, Decode, PartialEq, Debug, Clone)]
+    pub struct Lead { pub value: usize, pub fb: usize, pub fc: u8 }
+    #[derive(Encode, Decode, PartialEq, Debug, Clone)]
+    pub struct LeadT { pub fa: usize, pub fb: usize, pub fc: u8 }
+    pub fn run() {
+        let mut ok = true;
+        for (a, b, c) in [(1u8, 2usize, 3u16), (0xff, 0x0102_0304_0506_0708, 0xfffe), (7, 11, 0), (0, usize::MAX, 9)] {
+            let x = Fx { fa: a, value: b, fc: c };
+            let t = FxT { fa: a, fb: b, fc: c };
+            let e = x.as_ssz_bytes();
+            ok &= e == t.as_ssz_bytes() && x.ssz_bytes_len() == e.len();
+            ok &= <Fx as Encode>::ssz_fixed_len() == <FxT as Encode>::ssz_fixed_len() && <Fx as Decode>::ssz_fixed_len() == <FxT as Decode>::ssz_fixed_len();
+            ok &= matches!(std::panic::catch_unwind(|| Fx::from_ssz_bytes(&e)), Ok(Ok(ref y)) if *y == x);
+            let l = Lead { value: b, fb: b ^ 5, fc: a };
+            let lt = LeadT { fa: b, fb: b ^ 5, fc: a };
+            let el = l.as_ssz_bytes();
+            ok &= el == lt.as_ssz_bytes();
+            ok &= matches!(std::panic::catch_unwind(|| Lead::from_ssz_bytes(&el)), Ok(Ok(ref y)) if *y == l);
+            for (v1, v2) in [(vec![], vec![]), (vec![1u8, 2, 3], vec![9u16]), (vec![0u8; 5], vec![1u16, 2, 3])] {
+                let y = Vr { value: b, fb: v1.clone(), fc: c, fd: v2.clone() };
+                let yt = VrT { fa: b, fb: v1.clone(), fc: c, fd: v2.clone() };
+                let ey = y.as_ssz_bytes();
+                ok &= ey == yt.as_ssz_bytes() && y.ssz_bytes_len() == ey.len();
+                ok &= matches!(std::panic::catch_unwind(|| Vr::from_ssz_bytes(&ey)), Ok(Ok(ref z)) if *z == y);
+                let mut buf = vec![0xEE];
+                y.ssz_append(&mut buf);
+                ok &= buf[1..] == ey[..];
+            }
+        }
+        println!("value\t{}", if ok { "pass" } else { "fail" });
+    }
+}
+
 #[cfg(feature = "h_result")]
-hy!(m_result, result);
+mod m_result {
+    use super::*;
+    #[derive(Encode, Decode, PartialEq, Debug, Clone)]
+    pub struct Fx { pub fa: u8, pub result: usize, pub fc: u16 }
+    #[derive(Encode, Decode, PartialEq, Debug, Clone)]
+    pub struct FxT { pub fa: u8, pub fb: usize, pub fc: u16 }
+    #[derive(Encode, Decode, PartialEq, Debug, Clone)]
+    pub struct Vr { pub result: usize, pub fb: Vec<u8>, pub fc: u16, pub fd: Vec<u16> }
+    #[derive(Encode, Decode, PartialEq, Debug, Clone)]
+    pub struct VrT { pub fa: usize, pub fb: Vec<u8>, pub fc: u16, pub fd: Vec<u16> }
+    #[derive(Encode, Decode, PartialEq, Debug, Clone)]
+    pub struct Lead { pub result: usize, pub fb: usize, pub fc: u8 }
+    #[derive(Encode, Decode, PartialEq, Debug, Clone)]
+    pub struct LeadT { pub fa: usize, pub fb: usize, pub fc: u8 }
+    pub fn run() {
+        let mut ok = true;
+        for (a, b, c) in [(1u8, 2usize, 3u16), (0xff, 0x0102_0304_0506_0708, 0xfffe), (7, 11, 0), (0, usize::MAX, 9)] {
+            let x = Fx { fa: a, result: b, fc: c };
+            let t = FxT { fa: a, fb: b, fc: c };
+            let e = x.as_ssz_bytes();
+            ok &= e == t.as_ssz_bytes() && x.ssz_bytes_len() == e.len();
+            ok &= <Fx as Encode>::ssz_fixed_len() == <FxT as Encode>::ssz_fixed_len() && <Fx as Decode>::ssz_fixed_len() == <FxT as Decode>::ssz_fixed_len();
+            ok &= matches!(std::panic::catch_unwind(|| Fx::from_ssz_bytes(&e)), Ok(Ok(ref y)) if *y == x);
+            let l = Lead { result: b, fb: b ^ 5, fc: a };
+            let lt = LeadT { fa: b, fb: b ^ 5, fc: a };
+            let el = l.as_ssz_bytes();
+            ok &= el == lt.as_ssz_bytes();
+            ok &= matches!(std::panic::catch_unwind(|| Lead::from_ssz_bytes(&el)), Ok(Ok(ref y)) if *y == l);
+            for (v1, v2) in [(vec![], vec![]), (vec![1u8, 2, 3], vec![9u16]), (vec![0u8; 5], vec![1u16, 2, 3])] {
+                let y = Vr { result: b, fb: v1.clone(), fc: c, fd: v2.clone() };
+                let yt = VrT { fa: b, fb: v1.clone(), fc: c, fd: v2.clone() };
+                let ey = y.as_ssz_bytes();
+                ok &= ey == yt.as_ssz_bytes() && y.ssz_bytes_len() == ey.len();
+                ok &= matches!(std::panic::catch_unwind(|| Vr::from_ssz_bytes(&ey)), Ok(Ok(ref z)) if *z == y);
+                let mut buf = vec![0xEE];
+                y.ssz_append(&mut buf);
+                ok &= buf[1..] == ey[..];
+            }
+        }
+        println!("result\t{}", if ok { "pass" } else { "fail" });
+    }
+}
+
 #[cfg(feature = "h_res")]
-hy!(m_res, res);
+mod m_res {
+    use super::*;
+    #[derive(Encode, Decode, PartialEq, Debug, Clone)]
+    pub struct Fx { pub fa: u8, pub res: usize, pub fc: u16 }
+    #[derive(Encode, Decode, PartialEq, Debug, Clone)]
+    pub struct FxT { pub fa: u8, pub fb: usize, pub fc: u16 }
+    #[derive(Encode, Decode, PartialEq, Debug, Clone)]
+    pub struct Vr { pub res: usize, pub fb: Vec<u8>, pub fc: u16, pub fd: Vec<u16> }
+    #[derive(Encode, Decode, PartialEq, Debug, Clone)]
+    pub struct VrT { pub fa: usize, pub fb: Vec<u8>, pub fc: u16, pub fd: Vec<u16> }
+    #[derive(Encode, Decode, PartialEq, Debug, Clone)]
+    pub struct Lead { pub res: usize, pub fb: usize, pub fc: u8 }
+    #[derive(Encode, Decode, PartialEq, Debug, Clone)]
+    pub struct LeadT { pub fa: usize, pub fb: usize, pub fc: u8 }
+    pub fn run() {
+        let mut ok = true;
+        for (a, b, c) in [(1u8, 2usize, 3u16), (0xff, 0x0102_0304_0506_0708, 0xfffe), (7, 11, 0), (0, usize::MAX, 9)] {
+            let x = Fx { fa: a, res: b, fc: c };
+            let t = FxT { fa: a, fb: b, fc: c };
+            let e = x.as_ssz_bytes();
+            ok &= e == t.as_ssz_bytes() && x.ssz_bytes_len() == e.len();
+            ok &= <Fx as Encode>::ssz_fixed_len() == <FxT as Encode>::ssz_fixed_len() && <Fx as Decode>::ssz_fixed_len() == <FxT as Decode>::ssz_fixed_len();
+            ok &= matches!(std::panic::catch_unwind(|| Fx::from_ssz_bytes(&e)), Ok(Ok(ref y)) if *y == x);
+            let l = Lead { res: b, fb: b ^ 5, fc: a };
+            let lt = LeadT { fa: b, fb: b ^ 5, fc: a };
+            let el = l.as_ssz_bytes();
+            ok &= el == lt.as_ssz_bytes();
+            ok &= matches!(std::panic::catch_unwind(|| Lead::from_ssz_bytes(&el)), Ok(Ok(ref y)) if *y == l);
+            for (v1, v2) in [(vec![], vec![]), (vec![1u8, 2, 3], vec![9u16]), (vec![0u8; 5], vec![1u16, 2, 3])] {
+                let y = Vr { res: b, fb: v1.clone(), fc: c, fd: v2.clone() };
+                let yt = VrT { fa: b, fb: v1.clone(), fc: c, fd: v2.clone() };
+                let ey = y.as_ssz_bytes();
+                ok &= ey == yt.as_ssz_bytes() && y.ssz_bytes_len() == ey.len();
+                ok &= matches!(std::panic::catch_unwind(|| Vr::from_ssz_bytes(&ey)), Ok(Ok(ref z)) if *z == y);
+                let mut buf = vec![0xEE];
+                y.ssz_append(&mut buf);
+                ok &= buf[1..] == ey[..];
+            }
+        }
+        println!("res\t{}", if ok { "pass" } else { "fail" });
+    }
+}
+
 #[cfg(feature = "h_tmp")]
-hy!(m_tmp, tmp);
+mod m_tmp {
+    use super::*;
+    #[derive(Encode, Decode, PartialEq, Debug, Clone)]
+    pub struct Fx { pub fa: u8, pub tmp: usize, pub fc: u16 }
+    #[derive(Encode, Decode, PartialEq, Debug, Clone)]
+    pub struct FxT { pub fa: u8, pub fb: usize, pub fc: u16 }
+    #[derive(Encode, Decode, PartialEq, Debug, Clone)]
+    pub struct Vr { pub tmp: usize, pub fb: Vec<u8>, pub fc: u16, pub fd: Vec<u16> }
+    #[derive(Encode, Decode, PartialEq, Debug, Clone)]
+    pub struct VrT { pub fa: usize, pub fb: Vec<u8>, pub fc: u16, pub fd: Vec<u16> }
+    #[derive(Encode, Decode, PartialEq, Debug, Clone)]
+    pub struct Lead { pub tmp: usize, pub fb: usize, pub fc: u8 }
+    #[derive(Encode, Decode, PartialEq, Debug, Clone)]
+    pub struct LeadT { pub fa: usize, pub fb: usize, pub fc: u8 }
+    pub fn run() {
+        let mut ok = true;
+        for (a, b, c) in [(1u8, 2usize, 3u16), (0xff, 0x0102_0304_0506_0708, 0xfffe), (7, 11, 0), (0, usize::MAX, 9)] {
+            let x = Fx { fa: a, tmp: b, fc: c };
+            let t = FxT { fa: a, fb: b, fc: c };
+            let e = x.as_ssz_bytes();
+            ok &= e == t.as_ssz_bytes() && x.ssz_bytes_len() == e.len();
+            ok &= <Fx as Encode>::ssz_fixed_len() == <FxT as Encode>::ssz_fixed_len() && <Fx as Decode>::ssz_fixed_len() == <FxT as Decode>::ssz_fixed_len();
+            ok &= matches!(std::panic::catch_unwind(|| Fx::from_ssz_bytes(&e)), Ok(Ok(ref y)) if *y == x);
+            let l = Lead { tmp: b, fb: b ^ 5, fc: a };
+            let lt = LeadT { fa: b, fb: b ^ 5, fc: a };
+            let el = l.as_ssz_bytes();
+            ok &= el == lt.as_ssz_bytes();
+            ok &= matches!(std::panic::catch_unwind(|| Lead::from_ssz_bytes(&el)), Ok(Ok(ref y)) if *y == l);
+            for (v1, v2) in [(vec![], vec![]), (vec![1u8, 2, 3], vec![9u16]), (vec![0u8; 5], vec![1u16, 2, 3])] {
+                let y = Vr { tmp: b, fb: v1.clone(), fc: c, fd: v2.clone() };
+                let yt = VrT { fa: b, fb: v1.clone(), fc: c, fd: v2.clone() };
+                let ey = y.as_ssz_bytes();
+                ok &= ey == yt.as_ssz_bytes() && y.ssz_bytes_len() == ey.len();
+                ok &= matches!(std::panic::catch_unwind(|| Vr::from_ssz_bytes(&ey)), Ok(Ok(ref z)) if *z == y);
+                let mut buf = vec![0xEE];
+                y.ssz_append(&mut buf);
+                ok &= buf[1..] == ey[..];
+            }
+        }
+        println!("tmp\t{}", if ok { "pass" } else { "fail" });
+    }
+}
+
 #[cfg(feature = "h_idx")]
-hy!(m_idx, idx);
+mod m_idx {
+    use super::*;
+    #[derive(Encode, Decode, PartialEq, Debug, Clone)]
+    pub struct Fx { pub fa: u8, pub idx: usize, pub fc: u16 }
+    #[derive(Encode, Decode, PartialEq, Debug, Clone)]
+    pub struct FxT { pub fa: u8, pub fb: usize, pub fc: u16 }
+    #[derive(Encode, Decode, PartialEq, Debug, Clone)]
+    pub struct Vr { pub idx: usize, pub fb: Vec<u8>, pub fc: u16, pub fd: Vec<u16> }
+    #[derive(Encode, Decode, PartialEq, Debug, Clone)]
+    pub struct VrT { pub fa: usize, pub fb: Vec<u8>, pub fc: u16, pub fd: Vec<u16> }
+    #[derive(Encode, Decode, PartialEq, Debug, Clone)]
+    pub struct Lead { pub idx: usize, pub fb: usize, pub fc: u8 }
+    #[derive(Encode, Decode, PartialEq, Debug, Clone)]
+    pub struct LeadT { pub fa: usize, pub fb: usize, pub fc: u8 }
+    pub fn run() {
+        let mut ok = true;
+        for (a, b, c) in [(1u8, 2usize, 3u16), (0xff, 0x0102_0304_0506_0708, 0xfffe), (7, 11, 0), (0, usize::MAX, 9)] {
+            let x = Fx { fa: a, idx: b, fc: c };
+            let t = FxT { fa: a, fb: b, fc: c };
+            let e = x.as_ssz_bytes();
+            ok &= e == t.as_ssz_bytes() && x.ssz_bytes_len() == e.len();
+            ok &= <Fx as Encode>::ssz_fixed_len() == <FxT as Encode>::ssz_fixed_len() && <Fx as Decode>::ssz_fixed_len() == <FxT as Decode>::ssz_fixed_len();
+            ok &= matches!(std::panic::catch_unwind(|| Fx::from_ssz_bytes(&e)), Ok(Ok(ref y)) if *y == x);
+            let l = Lead { idx: b, fb: b ^ 5, fc: a };
+            let lt = LeadT { fa: b, fb: b ^ 5, fc: a };
+            let el = l.as_ssz_bytes();
+            ok &= el == lt.as_ssz_bytes();
+            ok &= matches!(std::panic::catch_unwind(|| Lead::from_ssz_bytes(&el)), Ok(Ok(ref y)) if *y == l);
+            for (v1, v2) in [(vec![], vec![]), (vec![1u8, 2, 3], vec![9u16]), (vec![0u8; 5], vec![1u16, 2, 3])] {
+                let y = Vr { idx: b, fb: v1.clone(), fc: c, fd: v2.clone() };
+                let yt = VrT { fa: b, fb: v1.clone(), fc: c, fd: v2.clone() };
+                let ey = y.as_ssz_bytes();
+                ok &= ey == yt.as_ssz_bytes() && y.ssz_bytes_len() == ey.len();
+                ok &= matches!(std::panic::catch_unwind(|| Vr::from_ssz_bytes(&ey)), Ok(Ok(ref z)) if *z == y);
+                let mut buf = vec![0xEE];
+                y.ssz_append(&mut buf);
+                ok &= buf[1..] == ey[..];
+            }
+        }
+        println!("idx\t{}", if ok { "pass" } else { "fail" });
+    }
+}
+
 #[cfg(feature = "h_pos")]
-hy!(m_pos, pos);
+mod m_pos {
+    use super::*;
+    #[derive(Encode, Decode, PartialEq, Debug, Clone)]
+    pub struct Fx { pub fa: u8, pub pos: usize, pub fc: u16 }
+    #[derive(Encode, Decode, PartialEq, Debug, Clone)]
+    pub struct FxT { pub fa: u8, pub fb: usize, pub fc: u16 }
+    #[derive(Encode, Decode, PartialEq, Debug, Clone)]
+    pub struct Vr { pub pos: usize, pub fb: Vec<u8>, pub fc: u16, pub fd: Vec<u16> }
+    #[derive(Encode, Decode, PartialEq, Debug, Clone)]
+    pub struct VrT { pub fa: usize, pub fb: Vec<u8>, pub fc: u16, pub fd: Vec<u16> }
+    #[derive(Encode, Decode, PartialEq, Debug, Clone)]
+    pub struct Lead { pub pos: usize, pub fb: usize, pub fc: u8 }
+    #[derive(Encode, Decode, PartialEq, Debug, Clone)]
+    pub struct LeadT { pub fa: usize, pub fb: usize, pub fc: u8 }
+    pub fn run() {
+        let mut ok = true;
+        for (a, b, c) in [(1u8, 2usize, 3u16), (0xff, 0x0102_0304_0506_0708, 0xfffe), (7, 11, 0), (0, usize::MAX, 9)] {
+            let x = Fx { fa: a, pos: b, fc: c };
+            let t = FxT { fa: a, fb: b, fc: c };
+            let e = x.as_ssz_bytes();
+            ok &= e == t.as_ssz_bytes() && x.ssz_bytes_len() == e.len();
+            ok &= <Fx as Encode>::ssz_fixed_len() == <FxT as Encode>::ssz_fixed_len() && <Fx as Decode>::ssz_fixed_len() == <FxT as Decode>::ssz_fixed_len();
+            ok &= matches!(std::panic::catch_unwind(|| Fx::from_ssz_bytes(&e)), Ok(Ok(ref y)) if *y == x);
+            let l = Lead { pos: b, fb: b ^ 5, fc: a };
+            let lt = LeadT { fa: b, fb: b ^ 5, fc: a };
+            let el = l.as_ssz_bytes();
+            ok &= el == lt.as_ssz_bytes();
+            ok &= matches!(std::panic::catch_unwind(|| Lead::from_ssz_bytes(&el)), Ok(Ok(ref y)) if *y == l);
+            for (v1, v2) in [(vec![], vec![]), (vec![1u8, 2, 3], vec![9u16]), (vec![0u8; 5], vec![1u16, 2, 3])] {
+                let y = Vr { pos: b, fb: v1.clone(), fc: c, fd: v2.clone() };
+                let yt = VrT { fa: b, fb: v1.clone(), fc: c, fd: v2.clone() };
+                let ey = y.as_ssz_bytes();
+                ok &= ey == yt.as_ssz_bytes() && y.ssz_bytes_len() == ey.len();
+                ok &= matches!(std::panic::catch_unwind(|| Vr::from_ssz_bytes(&ey)), Ok(Ok(ref z)) if *z == y);
+                let mut buf = vec![0xEE];
+                y.ssz_append(&mut buf);
+                ok &= buf[1..] == ey[..];
+            }
+        }
+        println!("pos\t{}", if ok { "pass" } else { "fail" });
+    }
+}
+
 #[cfg(feature = "h_cursor")]
-hy!(m_cursor, cursor);
+mod m_cursor {
+    use super::*;
+    #[derive(Encode, Decode, PartialEq, Debug, Clone)]
+    pub struct Fx { pub fa: u8, pub cursor: usize, pub fc: u16 }
+    #[derive(Encode, Decode, PartialEq, Debug, Clone)]
+    pub struct FxT { pub fa: u8, pub fb: usize, pub fc: u16 }
+    #[derive(Encode, Decode, PartialEq, Debug, Clone)]
+    pub struct Vr { pub cursor: usize, pub fb: Vec<u8>, pub fc: u16, pub fd: Vec<u16> }
+    #[derive(Encode, Decode, PartialEq, Debug, Clone)]
+    pub struct VrT { pub fa: usize, pub fb: Vec<u8>, pub fc: u16, pub fd: Vec<u16> }
+    #[derive(Encode, Decode, PartialEq, Debug, Clone)]
+    pub struct Lead { pub cursor: usize, pub fb: usize, pub fc: u8 }
+    #[derive(Encode, Decode, PartialEq, Debug, Clone)]
+    pub struct LeadT { pub fa: usize, pub fb: usize, pub fc: u8 }
+    pub fn run() {
+        let mut ok = true;
+        for (a, b, c) in [(1u8, 2usize, 3u16), (0xff, 0x0102_0304_0506_0708, 0xfffe), (7, 11, 0), (0, usize::MAX, 9)] {
+            let x = Fx { fa: a, cursor: b, fc: c };
+            let t = FxT { fa: a, fb: b, fc: c };
+            let e = x.as_ssz_bytes();
+            ok &= e == t.as_ssz_bytes() && x.ssz_bytes_len() == e.len();
+            ok &= <Fx as Encode>::ssz_fixed_len() == <FxT as Encode>::ssz_fixed_len() && <Fx as Decode>::ssz_fixed_len() == <FxT as Decode>::ssz_fixed_len();
+            ok &= matches!(std::panic::catch_unwind(|| Fx::from_ssz_bytes(&e)), Ok(Ok(ref y)) if *y == x);
+            let l = Lead { cursor: b, fb: b ^ 5, fc: a };
+            let lt = LeadT { fa: b, fb: b ^ 5, fc: a };
+            let el = l.as_ssz_bytes();
+            ok &= el == lt.as_ssz_bytes();
+            ok &= matches!(std::panic::catch_unwind(|| Lead::from_ssz_bytes(&el)), Ok(Ok(ref y)) if *y == l);
+            for (v1, v2) in [(vec![], vec![]), (vec![1u8, 2, 3], vec![9u16]), (vec![0u8; 5], vec![1u16, 2, 3])] {
+                let y = Vr { cursor: b, fb: v1.clone(), fc: c, fd: v2.clone() };
+                let yt = VrT { fa: b, fb: v1.clone(), fc: c, fd: v2.clone() };
+                let ey = y.as_ssz_bytes();
+                ok &= ey == yt.as_ssz_bytes() && y.ssz_bytes_len() == ey.len();
+                ok &= matches!(std::panic::catch_unwind(|| Vr::from_ssz_bytes(&ey)), Ok(Ok(ref z)) if *z == y);
+                let mut buf = vec![0xEE];
+                y.ssz_append(&mut buf);
+                ok &= buf[1..] == ey[..];
+            }
+        }
+        println!("cursor\t{}", if ok { "pass" } else { "fail" });
+    }
+}
+
 #[cfg(feature = "h_total")]
-hy!(m_total, total);
+mod m_total {
+    use super::*;
+    #[derive(Encode, Decode, PartialEq, Debug, Clone)]
+    pub struct Fx { pub fa: u8, pub total: usize, pub fc: u16 }
+    #[derive(Encode, Decode, PartialEq, Debug, Clone)]
+    pub struct FxT { pub fa: u8, pub fb: usize, pub fc: u16 }
+    #[derive(Encode, Decode, PartialEq, Debug, Clone)]
+    pub struct Vr { pub total: usize, pub fb: Vec<u8>, pub fc: u16, pub fd: Vec<u16> }
+    #[derive(Encode, Decode, PartialEq, Debug, Clone)]
+    pub struct VrT { pub fa: usize, pub fb: Vec<u8>, pub fc: u16, pub fd: Vec<u16> }
+    #[derive(Encode, Decode, PartialEq, Debug, Clone)]
+    pub struct Lead { pub total: usize, pub fb: usize, pub fc: u8 }
+    #[derive(Encode, Decode, PartialEq, Debug, Clone)]
+    pub struct LeadT { pub fa: usize, pub fb: usize, pub fc: u8 }
+    pub fn run() {
+        let mut ok = true;
+        for (a, b, c) in [(1u8, 2usize, 3u16), (0xff, 0x0102_0304_0506_0708, 0xfffe), (7, 11, 0), (0, usize::MAX, 9)] {
+            let x = Fx { fa: a, total: b, fc: c };
+            let t = FxT { fa: a, fb: b, fc: c };
+            let e = x.as_ssz_bytes();
+            ok &= e == t.as_ssz_bytes() && x.ssz_bytes_len() == e.len();
+            ok &= <Fx as Encode>::ssz_fixed_len() == <FxT as Encode>::ssz_fixed_len() && <Fx as Decode>::ssz_fixed_len() == <FxT as Decode>::ssz_fixed_len();
+            ok &= matches!(std::panic::catch_unwind(|| Fx::from_ssz_bytes(&e)), Ok(Ok(ref y)) if *y == x);
+            let l = Lead { total: b, fb: b ^ 5, fc: a };
+            let lt = LeadT { fa: b, fb: b ^ 5, fc: a };
+            let el = l.as_ssz_bytes();
+            ok &= el == lt.as_ssz_bytes();
+            ok &= matches!(std::panic::catch_unwind(|| Lead::from_ssz_bytes(&el)), Ok(Ok(ref y)) if *y == l);
+            for (v1, v2) in [(vec![], vec![]), (vec![1u8, 2, 3], vec![9u16]), (vec![0u8; 5], vec![1u16, 2, 3])] {
+                let y = Vr { total: b, fb: v1.clone(), fc: c, fd: v2.clone() };
+                let yt = VrT { fa: b, fb: v1.clone(), fc: c, fd: v2.clone() };
+                let ey = y.as_ssz_bytes();
+                ok &= ey == yt.as_ssz_bytes() && y.ssz_bytes_len() == ey.len();
+                ok &= matches!(std::panic::catch_unwind(|| Vr::from_ssz_bytes(&ey)), Ok(Ok(ref z)) if *z == y);
+                let mut buf = vec![0xEE];
+                y.ssz_append(&mut buf);
+                ok &= buf[1..] == ey[..];
+            }
+        }
+        println!("total\t{}", if ok { "pass" } else { "fail" });
+    }
+}
+
 #[cfg(feature = "h_size")]
-hy!(m_size, size);
+mod m_size {
+    use super::*;
+    #[derive(Encode, Decode, PartialEq, Debug, Clone)]
+    pub struct Fx { pub fa: u8, pub size: usize, pub fc: u16 }
+    #[derive(Encode, Decode, PartialEq, Debug, Clone)]
+    pub struct FxT { pub fa: u8, pub fb: usize, pub fc: u16 }
+    #[derive(Encode, Decode, PartialEq, Debug, Clone)]
+    pub struct Vr { pub size: usize, pub fb: Vec<u8>, pub fc: u16, pub fd: Vec<u16> }
+    #[derive(Encode, Decode, PartialEq, Debug, Clone)]
+    pub struct VrT { pub fa: usize, pub fb: Vec<u8>, pub fc: u16, pub fd: Vec<u16> }
+    #[derive(Encode, Decode, PartialEq, Debug, Clone)]
+    pub struct Lead { pub size: usize, pub fb: usize, pub fc: u8 }
+    #[derive(Encode, Decode, PartialEq, Debug, Clone)]
+    pub struct LeadT { pub fa: usize, pub fb: usize, pub fc: u8 }
+    pub fn run() {
+        let mut ok = true;
+        for (a, b, c) in [(1u8, 2usize, 3u16), (0xff, 0x0102_0304_0506_0708, 0xfffe), (7, 11, 0), (0, usize::MAX, 9)] {
+            let x = Fx { fa: a, size: b, fc: c };
+            let t = FxT { fa: a, fb: b, fc: c };
+            let e = x.as_ssz_bytes();
+            ok &= e == t.as_ssz_bytes() && x.ssz_bytes_len() == e.len();
+            ok &= <Fx as Encode>::ssz_fixed_len() == <FxT as Encode>::ssz_fixed_len() && <Fx as Decode>::ssz_fixed_len() == <FxT as Decode>::ssz_fixed_len();
+            ok &= matches!(std::panic::catch_unwind(|| Fx::from_ssz_bytes(&e)), Ok(Ok(ref y)) if *y == x);
+            let l = Lead { size: b, fb: b ^ 5, fc: a };
+            let lt = LeadT { fa: b, fb: b ^ 5, fc: a };
+            let el = l.as_ssz_bytes();
+            ok &= el == lt.as_ssz_bytes();
+            ok &= matches!(std::panic::catch_unwind(|| Lead::from_ssz_bytes(&el)), Ok(Ok(ref y)) if *y == l);
+            for (v1, v2) in [(vec![], vec![]), (vec![1u8, 2, 3], vec![9u16]), (vec![0u8; 5], vec![1u16, 2, 3])] {
+                let y = Vr { size: b, fb: v1.clone(), fc: c, fd: v2.clone() };
+                let yt = VrT { fa: b, fb: v1.clone(), fc: c, fd: v2.clone() };
+                let ey = y.as_ssz_bytes();
+                ok &= ey == yt.as_ssz_bytes() && y.ssz_bytes_len() == ey.len();
+                ok &= matches!(std::panic::catch_unwind(|| Vr::from_ssz_bytes(&ey)), Ok(Ok(ref z)) if *z == y);
+                let mut buf = vec![0xEE];
+                y.ssz_append(&mut buf);
+                ok &= buf[1..] == ey[..];
+            }
+        }
+        println!("size\t{}", if ok { "pass" } else { "fail" });
+    }
+}
+
 #[cfg(feature = "h_count")]
-hy!(m_count, count);
+mod m_count {
+    use super::*;
+    #[derive(Encode, Decode, PartialEq, Debug, Clone)]
+    pub struct Fx { pub fa: u8, pub count: usize, pub fc: u16 }
+    #[derive(Encode, Decode, PartialEq, Debug, Clone)]
+    pub struct FxT { pub fa: u8, pub fb: usize, pub fc: u16 }
+    #[derive(Encode, Decode, PartialEq, Debug, Clone)]
+    pub struct Vr { pub count: usize, pub fb: Vec<u8>, pub fc: u16, pub fd: Vec<u16> }
+    #[derive(Encode, Decode, PartialEq, Debug, Clone)]
+    pub struct VrT { pub fa: usize, pub fb: Vec<u8>, pub fc: u16, pub fd: Vec<u16> }
+    #[derive(Encode, Decode, PartialEq, Debug, Clone)]
+    pub struct Lead { pub count: usize, pub fb: usize, pub fc: u8 }
+    #[derive(Encode, Decode, PartialEq, Debug, Clone)]
+    pub struct LeadT { pub fa: usize, pub fb: usize, pub fc: u8 }
+    pub fn run() {
+        let mut ok = true;
+        for (a, b, c) in [(1u8, 2usize, 3u16), (0xff, 0x0102_0304_0506_0708, 0xfffe), (7, 11, 0), (0, usize::MAX, 9)] {
+            let x = Fx { fa: a, count: b, fc: c };
+            let t = FxT { fa: a, fb: b, fc: c };
+            let e = x.as_ssz_bytes();
+            ok &= e == t.as_ssz_bytes() && x.ssz_bytes_len() == e.len();
+            ok &= <Fx as Encode>::ssz_fixed_len() == <FxT as Encode>::ssz_fixed_len() && <Fx as Decode>::ssz_fixed_len() == <FxT as Decode>::ssz_fixed_len();
+            ok &= matches!(std::panic::catch_unwind(|| Fx::from_ssz_bytes(&e)), Ok(Ok(ref y)) if *y == x);
+            let l = Lead { count: b, fb: b ^ 5, fc: a };
+            let lt = LeadT { fa: b, fb: b ^ 5, fc: a };
+            let el = l.as_ssz_bytes();
+            ok &= el == lt.as_ssz_bytes();
+            ok &= matches!(std::panic::catch_unwind(|| Lead::from_ssz_bytes(&el)), Ok(Ok(ref y)) if *y == l);
+            for (v1, v2) in [(vec![], vec![]), (vec![1u8, 2, 3], vec![9u16]), (vec![0u8; 5], vec![1u16, 2, 3])] {
+                let y = Vr { count: b, fb: v1.clone(), fc: c, fd: v2.clone() };
+                let yt = VrT { fa: b, fb: v1.clone(), fc: c, fd: v2.clone() };
+                let ey = y.as_ssz_bytes();
+                ok &= ey == yt.as_ssz_bytes() && y.ssz_bytes_len() == ey.len();
+                ok &= matches!(std::panic::catch_unwind(|| Vr::from_ssz_bytes(&ey)), Ok(Ok(ref z)) if *z == y);
+                let mut buf = vec![0xEE];
+                y.ssz_append(&mut buf);
+                ok &= buf[1..] == ey[..];
+            }
+        }
+        println!("count\t{}", if ok { "pass" } else { "fail" });
+    }
+}
+
 #[cfg(feature = "h_bytes_len")]
-hy!(m_bytes_len, bytes_len);
+mod m_bytes_len {
+    use super::*;
+    #[derive(Encode, Decode, PartialEq, Debug, Clone)]
+    pub struct Fx { pub fa: u8, pub bytes_len: usize, pub fc: u16 }
+    #[derive(Encode, Decode, PartialEq, Debug, Clone)]
+    pub struct FxT { pub fa: u8, pub fb: usize, pub fc: u16 }
+    #[derive(Encode, Decode, PartialEq, Debug, Clone)]
+    pub struct Vr { pub bytes_len: usize, pub fb: Vec<u8>, pub fc: u16, pub fd: Vec<u16> }
+    #[derive(Encode, Decode, PartialEq, Debug, Clone)]
+    pub struct VrT { pub fa: usize, pub fb: Vec<u8>, pub fc: u16, pub fd: Vec<u16> }
+    #[derive(Encode, Decode, PartialEq, Debug, Clone)]
+    pub struct Lead { pub bytes_len: usize, pub fb: usize, pub fc: u8 }
+    #[derive(Encode, Decode, PartialEq, Debug, Clone)]
+    pub struct LeadT { pub fa: usize, pub fb: usize, pub fc: u8 }
+    pub fn run() {
+        let mut ok = true;
+        for (a, b, c) in [(1u8, 2usize, 3u16), (0xff, 0x0102_0304_0506_0708, 0xfffe), (7, 11, 0), (0, usize::MAX, 9)] {
+            let x = Fx { fa: a, bytes_len: b, fc: c };
+            let t = FxT { fa: a, fb: b, fc: c };
+            let e = x.as_ssz_bytes();
+            ok &= e == t.as_ssz_bytes() && x.ssz_bytes_len() == e.len();
+            ok &= <Fx as Encode>::ssz_fixed_len() == <FxT as Encode>::ssz_fixed_len() && <Fx as Decode>::ssz_fixed_len() == <FxT as Decode>::ssz_fixed_len();
+            ok &= matches!(std::panic::catch_unwind(|| Fx::from_ssz_bytes(&e)), Ok(Ok(ref y)) if *y == x);
+            let l = Lead { bytes_len: b, fb: b ^ 5, fc: a };
+            let lt = LeadT { fa: b, fb: b ^ 5, fc: a };
+            let el = l.as_ssz_bytes();
+            ok &= el == lt.as_ssz_bytes();
+            ok &= matches!(std::panic::catch_unwind(|| Lead::from_ssz_bytes(&el)), Ok(Ok(ref y)) if *y == l);
+            for (v1, v2) in [(vec![], vec![]), (vec![1u8, 2, 3], vec![9u16]), (vec![0u8; 5], vec![1u16, 2, 3])] {
+                let y = Vr { bytes_len: b, fb: v1.clone(), fc: c, fd: v2.clone() };
+                let yt = VrT { fa: b, fb: v1.clone(), fc: c, fd: v2.clone() };
+                let ey = y.as_ssz_bytes();
+                ok &= ey == yt.as_ssz_bytes() && y.ssz_bytes_len() == ey.len();
+                ok &= matches!(std::panic::catch_unwind(|| Vr::from_ssz_bytes(&ey)), Ok(Ok(ref z)) if *z == y);
+                let mut buf = vec![0xEE];
+                y.ssz_append(&mut buf);
+                ok &= buf[1..] == ey[..];
+            }
+        }
+        println!("bytes_len\t{}", if ok { "pass" } else { "fail" });
+    }
+}
+
 #[cfg(feature = "h_fixed_len")]
-hy!(m_fixed_len, fixed_len);
+mod m_fixed_len {
+    use super::*;
+    #[derive(Encode, Decode, PartialEq, Debug, Clone)]
+    pub struct Fx { pub fa: u8, pub fixed_len: usize, pub fc: u16 }
+    #[derive(Encode, Decode, PartialEq, Debug, Clone)]
+    pub struct FxT { pub fa: u8, pub fb: usize, pub fc: u16 }
+    #[derive(Encode, Decode, PartialEq, Debug, Clone)]
+    pub struct Vr { pub fixed_len: usize, pub fb: Vec<u8>, pub fc: u16, pub fd: Vec<u16> }
+    #[derive(Encode, Decode, PartialEq, Debug, Clone)]
+    pub struct VrT { pub fa: usize, pub fb: Vec<u8>, pub fc: u16, pub fd: Vec<u16> }
+    #[derive(Encode, Decode, PartialEq, Debug, Clone)]
+    pub struct Lead { pub fixed_len: usize, pub fb: usize, pub fc: u8 }
+    #[derive(Encode, Decode, PartialEq, Debug, Clone)]
+    pub struct LeadT { pub fa: usize, pub fb: usize, pub fc: u8 }
+    pub fn run() {
+        let mut ok = true;
+        for (a, b, c) in [(1u8, 2usize, 3u16), (0xff, 0x0102_0304_0506_0708, 0xfffe), (7, 11, 0), (0, usize::MAX, 9)] {
+            let x = Fx { fa: a, fixed_len: b, fc: c };
+            let t = FxT { fa: a, fb: b, fc: c };
+            let e = x.as_ssz_bytes();
+            ok &= e == t.as_ssz_bytes() && x.ssz_bytes_len() == e.len();
+            ok &= <Fx as Encode>::ssz_fixed_len() == <FxT as Encode>::ssz_fixed_len() && <Fx as Decode>::ssz_fixed_len() == <FxT as Decode>::ssz_fixed_len();
+            ok &= matches!(std::panic::catch_unwind(|| Fx::from_ssz_bytes(&e)), Ok(Ok(ref y)) if *y == x);
+            let l = Lead { fixed_len: b, fb: b ^ 5, fc: a };
+            let lt = LeadT { fa: b, fb: b ^ 5, fc: a };
+            let el = l.as_ssz_bytes();
+            ok &= el == lt.as_ssz_bytes();
+            ok &= matches!(std::panic::catch_unwind(|| Lead::from_ssz_bytes(&el)), Ok(Ok(ref y)) if *y == l);
+            for (v1, v2) in [(vec![], vec![]), (vec![1u8, 2, 3], vec![9u16]), (vec![0u8; 5], vec![1u16, 2, 3])] {
+                let y = Vr { fixed_len: b, fb: v1.clone(), fc: c, fd: v2.clone() };
+                let yt = VrT { fa: b, fb: v1.clone(), fc: c, fd: v2.clone() };
+                let ey = y.as_ssz_bytes();
+                ok &= ey == yt.as_ssz_bytes() && y.ssz_bytes_len() == ey.len();
+                ok &= matches!(std::panic::catch_unwind(|| Vr::from_ssz_bytes(&ey)), Ok(Ok(ref z)) if *z == y);
+                let mut buf = vec![0xEE];
+                y.ssz_append(&mut buf);
+                ok &= buf[1..] == ey[..];
+            }
+        }
+        println!("fixed_len\t{}", if ok { "pass" } else { "fail" });
+    }
+}
+
 #[cfg(feature = "h_is_fixed")]
-hy!(m_is_fixed, is_fixed);
+mod m_is_fixed {
+    use super::*;
+    #[derive(Encode, Decode, PartialEq, Debug, Clone)]
+    pub struct Fx { pub fa: u8, pub is_fixed: usize, pub fc: u16 }
+    #[derive(Encode, Decode, PartialEq, Debug, Clone)]
+    pub struct FxT { pub fa: u8, pub fb: usize, pub fc: u16 }
+    #[derive(Encode, Decode, PartialEq, Debug, Clone)]
+    pub struct Vr { pub is_fixed: usize, pub fb: Vec<u8>, pub fc: u16, pub fd: Vec<u16> }
+    #[derive(Encode, Decode, PartialEq, Debug, Clone)]
+    pub struct VrT { pub fa: usize, pub fb: Vec<u8>, pub fc: u16, pub fd: Vec<u16> }
+    #[derive(Encode, Decode, PartialEq, Debug, Clone)]
+    pub struct Lead { pub is_fixed: usize, pub fb: usize, pub fc: u8 }
+    #[derive(Encode, Decode, PartialEq, Debug, Clone)]
+    pub struct LeadT { pub fa: usize, pub fb: usize, pub fc: u8 }
+    pub fn run() {
+        let mut ok = true;
+        for (a, b, c) in [(1u8, 2usize, 3u16), (0xff, 0x0102_0304_0506_0708, 0xfffe), (7, 11, 0), (0, usize::MAX, 9)] {
+            let x = Fx { fa: a, is_fixed: b, fc: c };
+            let t = FxT { fa: a, fb: b, fc: c };
+            let e = x.as_ssz_bytes();
+            ok &= e == t.as_ssz_bytes() && x.ssz_bytes_len() == e.len();
+            ok &= <Fx as Encode>::ssz_fixed_len() == <FxT as Encode>::ssz_fixed_len() && <Fx as Decode>::ssz_fixed_len() == <FxT as Decode>::ssz_fixed_len();
+            ok &= matches!(std::panic::catch_unwind(|| Fx::from_ssz_bytes(&e)), Ok(Ok(ref y)) if *y == x);
+            let l = Lead { is_fixed: b, fb: b ^ 5, fc: a };
+            let lt = LeadT { fa: b, fb: b ^ 5, fc: a };
+            let el = l.as_ssz_bytes();
+            ok &= el == lt.as_ssz_bytes();
+            ok &= matches!(std::panic::catch_unwind(|| Lead::from_ssz_bytes(&el)), Ok(Ok(ref y)) if *y == l);
+            for (v1, v2) in [(vec![], vec![]), (vec![1u8, 2, 3], vec![9u16]), (vec![0u8; 5], vec![1u16, 2, 3])] {
+                let y = Vr { is_fixed: b, fb: v1.clone(), fc: c, fd: v2.clone() };
+                let yt = VrT { fa: b, fb: v1.clone(), fc: c, fd: v2.clone() };
+                let ey = y.as_ssz_bytes();
+                ok &= ey == yt.as_ssz_bytes() && y.ssz_bytes_len() == ey.len();
+                ok &= matches!(std::panic::catch_unwind(|| Vr::from_ssz_bytes(&ey)), Ok(Ok(ref z)) if *z == y);
+                let mut buf = vec![0xEE];
+                y.ssz_append(&mut buf);
+                ok &= buf[1..] == ey[..];
+            }
+        }
+        println!("is_fixed\t{}", if ok { "pass" } else { "fail" });
+    }
+}
+
 #[cfg(feature = "h_selector")]
-hy!(m_selector, selector);
+mod m_selector {
+    use super::*;
+    #[derive(Encode, Decode, PartialEq, Debug, Clone)]
+    pub struct Fx { pub fa: u8, pub selector: usize, pub fc: u16 }
+    #[derive(Encode, Decode, PartialEq, Debug, Clone)]
+    pub struct FxT { pub fa: u8, pub fb: usize, pub fc: u16 }
+    #[derive(Encode, Decode, PartialEq, Debug, Clone)]
+    pub struct Vr { pub selector: usize, pub fb: Vec<u8>, pub fc: u16, pub fd: Vec<u16> }
+    #[derive(Encode, Decode, PartialEq, Debug, Clone)]
+    pub struct VrT { pub fa: usize, pub fb: Vec<u8>, pub fc: u16, pub fd: Vec<u16> }
+    #[derive(Encode, Decode, PartialEq, Debug, Clone)]
+    pub struct Lead { pub selector: usize, pub fb: usize, pub fc: u8 }
+    #[derive(Encode, Decode, PartialEq, Debug, Clone)]
+    pub struct LeadT { pub fa: usize, pub fb: usize, pub fc: u8 }
+    pub fn run() {
+        let mut ok = true;
+        for (a, b, c) in [(1u8, 2usize, 3u16), (0xff, 0x0102_0304_0506_0708, 0xfffe), (7, 11, 0), (0, usize::MAX, 9)] {
+            let x = Fx { fa: a, selector: b, fc: c };
+            let t = FxT { fa: a, fb: b, fc: c };
+            let e = x.as_ssz_bytes();
+            ok &= e == t.as_ssz_bytes() && x.ssz_bytes_len() == e.len();
+            ok &= <Fx as Encode>::ssz_fixed_len() == <FxT as Encode>::ssz_fixed_len() && <Fx as Decode>::ssz_fixed_len() == <FxT as Decode>::ssz_fixed_len();
+            ok &= matches!(std::panic::catch_unwind(|| Fx::from_ssz_bytes(&e)), Ok(Ok(ref y)) if *y == x);
+            let l = Lead { selector: b, fb: b ^ 5, fc: a };
+            let lt = LeadT { fa: b, fb: b ^ 5, fc: a };
+            let el = l.as_ssz_bytes();
+            ok &= el == lt.as_ssz_bytes();
+            ok &= matches!(std::panic::catch_unwind(|| Lead::from_ssz_bytes(&el)), Ok(Ok(ref y)) if *y == l);
+            for (v1, v2) in [(vec![], vec![]), (vec![1u8, 2, 3], vec![9u16]), (vec![0u8; 5], vec![1u16, 2, 3])] {
+                let y = Vr { selector: b, fb: v1.clone(), fc: c, fd: v2.clone() };
+                let yt = VrT { fa: b, fb: v1.clone(), fc: c, fd: v2.clone() };
+                let ey = y.as_ssz_bytes();
+                ok &= ey == yt.as_ssz_bytes() && y.ssz_bytes_len() == ey.len();
+                ok &= matches!(std::panic::catch_unwind(|| Vr::from_ssz_bytes(&ey)), Ok(Ok(ref z)) if *z == y);
+                let mut buf = vec![0xEE];
+                y.ssz_append(&mut buf);
+                ok &= buf[1..] == ey[..];
+            }
+        }
+        println!("selector\t{}", if ok { "pass" } else { "fail" });
+    }
+}
+
 #[cfg(feature = "h_body")]
-hy!(m_body, body);
+mod m_body {
+    use super::*;
+    #[derive(Encode, Decode, PartialEq, Debug, Clone)]
+    pub struct Fx { pub fa: u8, pub body: usize, pub fc: u16 }
+    #[derive(Encode, Decode, PartialEq, Debug, Clone)]
+    pub struct FxT { pub fa: u8, pub fb: usize, pub fc: u16 }
+    #[derive(Encode, Decode, PartialEq, Debug, Clone)]
+    pub struct Vr { pub body: usize, pub fb: Vec<u8>, pub fc: u16, pub fd: Vec<u16> }
+    #[derive(Encode, Decode, PartialEq, Debug, Clone)]
+    pub struct VrT { pub fa: usize, pub fb: Vec<u8>, pub fc: u16, pub fd: Vec<u16> }
+    #[derive(Encode, Decode, PartialEq, Debug, Clone)]
+    pub struct Lead { pub body: usize, pub fb: usize, pub fc: u8 }
+    #[derive(Encode, Decode, PartialEq, Debug, Clone)]
+    pub struct LeadT { pub fa: usize, pub fb: usize, pub fc: u8 }
+    pub fn run() {
+        let mut ok = true;
+        for (a, b, c) in [(1u8, 2usize, 3u16), (0xff, 0x0102_0304_0506_0708, 0xfffe), (7, 11, 0), (0, usize::MAX, 9)] {
+            let x = Fx { fa: a, body: b, fc: c };
+            let t = FxT { fa: a, fb: b, fc: c };
+            let e = x.as_ssz_bytes();
+            ok &= e == t.as_ssz_bytes() && x.ssz_bytes_len() == e.len();
+            ok &= <Fx as Encode>::ssz_fixed_len() == <FxT as Encode>::ssz_fixed_len() && <Fx as Decode>::ssz_fixed_len() == <FxT as Decode>::ssz_fixed_len();
+            ok &= matches!(std::panic::catch_unwind(|| Fx::from_ssz_bytes(&e)), Ok(Ok(ref y)) if *y == x);
+            let l = Lead { body: b, fb: b ^ 5, fc: a };
+            let lt = LeadT { fa: b, fb: b ^ 5, fc: a };
+            let el = l.as_ssz_bytes();
+            ok &= el == lt.as_ssz_bytes();
+            ok &= matches!(std::panic::catch_unwind(|| Lead::from_ssz_bytes(&el)), Ok(Ok(ref y)) if *y == l);
+            for (v1, v2) in [(vec![], vec![]), (vec![1u8, 2, 3], vec![9u16]), (vec![0u8; 5], vec![1u16, 2, 3])] {
+                let y = Vr { body: b, fb: v1.clone(), fc: c, fd: v2.clone() };
+                let yt = VrT { fa: b, fb: v1.clone(), fc: c, fd: v2.clone() };
+                let ey = y.as_ssz_bytes();
+                ok &= ey == yt.as_ssz_bytes() && y.ssz_bytes_len() == ey.len();
+                ok &= matches!(std::panic::catch_unwind(|| Vr::from_ssz_bytes(&ey)), Ok(Ok(ref z)) if *z == y);
+                let mut buf = vec![0xEE];
+                y.ssz_append(&mut buf);
+                ok &= buf[1..] == ey[..];
+            }
+        }
+        println!("body\t{}", if ok { "pass" } else { "fail" });
+    }
+}
+
 #[cfg(feature = "h_field")]
-hy!(m_field, field);
+mod m_field {
+    use super::*;
+    #[derive(Encode, Decode, PartialEq, Debug, Clone)]
+    pub struct Fx { pub fa: u8, pub field: usize, pub fc: u16 }
+    #[derive(Encode, Decode, PartialEq, Debug, Clone)]
+    pub struct FxT { pub fa: u8, pub fb: usize, pub fc: u16 }
+    #[derive(Encode, Decode, PartialEq, Debug, Clone)]
+    pub struct Vr { pub field: usize, pub fb: Vec<u8>, pub fc: u16, pub fd: Vec<u16> }
+    #[derive(Encode, Decode, PartialEq, Debug, Clone)]
+    pub struct VrT { pub fa: usize, pub fb: Vec<u8>, pub fc: u16, pub fd: Vec<u16> }
+    #[derive(Encode, Decode, PartialEq, Debug, Clone)]
+    pub struct Lead { pub field: usize, pub fb: usize, pub fc: u8 }
+    #[derive(Encode, Decode, PartialEq, Debug, Clone)]
+    pub struct LeadT { pub fa: usize, pub fb: usize, pub fc: u8 }
+    pub fn run() {
+        let mut ok = true;
+        for (a, b, c) in [(1u8, 2usize, 3u16), (0xff, 0x0102_0304_0506_0708, 0xfffe), (7, 11, 0), (0, usize::MAX, 9)] {
+            let x = Fx { fa: a, field: b, fc: c };
+            let t = FxT { fa: a, fb: b, fc: c };
+            let e = x.as_ssz_bytes();
+            ok &= e == t.as_ssz_bytes() && x.ssz_bytes_len() == e.len();
+            ok &= <Fx as Encode>::ssz_fixed_len() == <FxT as Encode>::ssz_fixed_len() && <Fx as Decode>::ssz_fixed_len() == <FxT as Decode>::ssz_fixed_len();
+            ok &= matches!(std::panic::catch_unwind(|| Fx::from_ssz_bytes(&e)), Ok(Ok(ref y)) if *y == x);
+            let l = Lead { field: b, fb: b ^ 5, fc: a };
+            let lt = LeadT { fa: b, fb: b ^ 5, fc: a };
+            let el = l.as_ssz_bytes();
+            ok &= el == lt.as_ssz_bytes();
+            ok &= matches!(std::panic::catch_unwind(|| Lead::from_ssz_bytes(&el)), Ok(Ok(ref y)) if *y == l);
+            for (v1, v2) in [(vec![], vec![]), (vec![1u8, 2, 3], vec![9u16]), (vec![0u8; 5], vec![1u16, 2, 3])] {
+                let y = Vr { field: b, fb: v1.clone(), fc: c, fd: v2.clone() };
+                let yt = VrT { fa: b, fb: v1.clone(), fc: c, fd: v2.clone() };
+                let ey = y.as_ssz_bytes();
+                ok &= ey == yt.as_ssz_bytes() && y.ssz_bytes_len() == ey.len();
+                ok &= matches!(std::panic::catch_unwind(|| Vr::from_ssz_bytes(&ey)), Ok(Ok(ref z)) if *z == y);
+                let mut buf = vec![0xEE];
+                y.ssz_append(&mut buf);
+                ok &= buf[1..] == ey[..];
+            }
+        }
+        println!("field\t{}", if ok { "pass" } else { "fail" });
+    }
+}
+
 #[cfg(feature = "h_name")]
-hy!(m_name, name);
+mod m_name {
+    use super::*;
+    #[derive(Encode, Decode, PartialEq, Debug, Clone)]
+    pub struct Fx { pub fa: u8, pub name: usize, pub fc: u16 }
+    #[derive(Encode, Decode, PartialEq, Debug, Clone)]
+    pub struct FxT { pub fa: u8, pub fb: usize, pub fc: u16 }
+    #[derive(Encode, Decode, PartialEq, Debug, Clone)]
+    pub struct Vr { pub name: usize, pub fb: Vec<u8>, pub fc: u16, pub fd: Vec<u16> }
+    #[derive(Encode, Decode, PartialEq, Debug, Clone)]
+    pub struct VrT { pub fa: usize, pub fb: Vec<u8>, pub fc: u16, pub fd: Vec<u16> }
+    #[derive(Encode, Decode, PartialEq, Debug, Clone)]
+    pub struct Lead { pub name: usize, pub fb: usize, pub fc: u8 }
+    #[derive(Encode, Decode, PartialEq, Debug, Clone)]
+    pub struct LeadT { pub fa: usize, pub fb: usize, pub fc: u8 }
+    pub fn run() {
+        let mut ok = true;
+        for (a, b, c) in [(1u8, 2usize, 3u16), (0xff, 0x0102_0304_0506_0708, 0xfffe), (7, 11, 0), (0, usize::MAX, 9)] {
+            let x = Fx { fa: a, name: b, fc: c };
+            let t = FxT { fa: a, fb: b, fc: c };
+            let e = x.as_ssz_bytes();
+            ok &= e == t.as_ssz_bytes() && x.ssz_bytes_len() == e.len();
+            ok &= <Fx as Encode>::ssz_fixed_len() == <FxT as Encode>::ssz_fixed_len() && <Fx as Decode>::ssz_fixed_len() == <FxT as Decode>::ssz_fixed_len();
+            ok &= matches!(std::panic::catch_unwind(|| Fx::from_ssz_bytes(&e)), Ok(Ok(ref y)) if *y == x);
+            let l = Lead { name: b, fb: b ^ 5, fc: a };
+            let lt = LeadT { fa: b, fb: b ^ 5, fc: a };
+            let el = l.as_ssz_bytes();
+            ok &= el == lt.as_ssz_bytes();
+            ok &= matches!(std::panic::catch_unwind(|| Lead::from_ssz_bytes(&el)), Ok(Ok(ref y)) if *y == l);
+            for (v1, v2) in [(vec![], vec![]), (vec![1u8, 2, 3], vec![9u16]), (vec![0u8; 5], vec![1u16, 2, 3])] {
+                let y = Vr { name: b, fb: v1.clone(), fc: c, fd: v2.clone() };
+                let yt = VrT { fa: b, fb: v1.clone(), fc: c, fd: v2.clone() };
+                let ey = y.as_ssz_bytes();
+                ok &= ey == yt.as_ssz_bytes() && y.ssz_bytes_len() == ey.len();
+                ok &= matches!(std::panic::catch_unwind(|| Vr::from_ssz_bytes(&ey)), Ok(Ok(ref z)) if *z == y);
+                let mut buf = vec![0xEE];
+                y.ssz_append(&mut buf);
+                ok &= buf[1..] == ey[..];
+            }
+        }
+        println!("name\t{}", if ok { "pass" } else { "fail" });
+    }
+}
+
 #[cfg(feature = "h_item")]
-hy!(m_item, item);
+mod m_item {
+    use super::*;
+    #[derive(Encode, Decode, PartialEq, Debug, Clone)]
+    pub struct Fx { pub fa: u8, pub item: usize, pub fc: u16 }
+    #[derive(Encode, Decode, PartialEq, Debug, Clone)]
+    pub struct FxT { pub fa: u8, pub fb: usize, pub fc: u16 }
+    #[derive(Encode, Decode, PartialEq, Debug, Clone)]
+    pub struct Vr { pub item: usize, pub fb: Vec<u8>, pub fc: u16, pub fd: Vec<u16> }
+    #[derive(Encode, Decode, PartialEq, Debug, Clone)]
+    pub struct VrT { pub fa: usize, pub fb: Vec<u8>, pub fc: u16, pub fd: Vec<u16> }
+    #[derive(Encode, Decode, PartialEq, Debug, Clone)]
+    pub struct Lead { pub item: usize, pub fb: usize, pub fc: u8 }
+    #[derive(Encode, Decode, PartialEq, Debug, Clone)]
+    pub struct LeadT { pub fa: usize, pub fb: usize, pub fc: u8 }
+    pub fn run() {
+        let mut ok = true;
+        for (a, b, c) in [(1u8, 2usize, 3u16), (0xff, 0x0102_0304_0506_0708, 0xfffe), (7, 11, 0), (0, usize::MAX, 9)] {
+            let x = Fx { fa: a, item: b, fc: c };
+            let t = FxT { fa: a, fb: b, fc: c };
+            let e = x.as_ssz_bytes();
+            ok &= e == t.as_ssz_bytes() && x.ssz_bytes_len() == e.len();
+            ok &= <Fx as Encode>::ssz_fixed_len() == <FxT as Encode>::ssz_fixed_len() && <Fx as Decode>::ssz_fixed_len() == <FxT as Decode>::ssz_fixed_len();
+            ok &= matches!(std::panic::catch_unwind(|| Fx::from_ssz_bytes(&e)), Ok(Ok(ref y)) if *y == x);
+            let l = Lead { item: b, fb: b ^ 5, fc: a };
+            let lt = LeadT { fa: b, fb: b ^ 5, fc: a };
+            let el = l.as_ssz_bytes();
+            ok &= el == lt.as_ssz_bytes();
+            ok &= matches!(std::panic::catch_unwind(|| Lead::from_ssz_bytes(&el)), Ok(Ok(ref y)) if *y == l);
+            for (v1, v2) in [(vec![], vec![]), (vec![1u8, 2, 3], vec![9u16]), (vec![0u8; 5], vec![1u16, 2, 3])] {
+                let y = Vr { item: b, fb: v1.clone(), fc: c, fd: v2.clone() };
+                let yt = VrT { fa: b, fb: v1.clone(), fc: c, fd: v2.clone() };
+                let ey = y.as_ssz_bytes();
+                ok &= ey == yt.as_ssz_bytes() && y.ssz_bytes_len() == ey.len();
+                ok &= matches!(std::panic::catch_unwind(|| Vr::from_ssz_bytes(&ey)), Ok(Ok(ref z)) if *z == y);
+                let mut buf = vec![0xEE];
+                y.ssz_append(&mut buf);
+                ok &= buf[1..] == ey[..];
+            }
+        }
+        println!("item\t{}", if ok { "pass" } else { "fail" });
+    }
+}
+
 #[cfg(feature = "h_out")]
-hy!(m_out, out);
+mod m_out {
+    use super::*;
+    #[derive(Encode, Decode, PartialEq, Debug, Clone)]
+    pub struct Fx { pub fa: u8, pub out: usize, pub fc: u16 }
+    #[derive(Encode, Decode, PartialEq, Debug, Clone)]
+    pub struct FxT { pub fa: u8, pub fb: usize, pub fc: u16 }
+    #[derive(Encode, Decode, PartialEq, Debug, Clone)]
+    pub struct Vr { pub out: usize, pub fb: Vec<u8>, pub fc: u16, pub fd: Vec<u16> }
+    #[derive(Encode, Decode, PartialEq, Debug, Clone)]
+    pub struct VrT { pub fa: usize, pub fb: Vec<u8>, pub fc: u16, pub fd: Vec<u16> }
+    #[derive(Encode, Decode, PartialEq, Debug, Clone)]
+    pub struct Lead { pub out: usize, pub fb: usize, pub fc: u8 }
+    #[derive(Encode, Decode, PartialEq, Debug, Clone)]
+    pub struct LeadT { pub fa: usize, pub fb: usize, pub fc: u8 }
+    pub fn run() {
+        let mut ok = true;
+        for (a, b, c) in [(1u8, 2usize, 3u16), (0xff, 0x0102_0304_0506_0708, 0xfffe), (7, 11, 0), (0, usize::MAX, 9)] {
+            let x = Fx { fa: a, out: b, fc: c };
+            let t = FxT { fa: a, fb: b, fc: c };
+            let e = x.as_ssz_bytes();
+            ok &= e == t.as_ssz_bytes() && x.ssz_bytes_len() == e.len();
+            ok &= <Fx as Encode>::ssz_fixed_len() == <FxT as Encode>::ssz_fixed_len() && <Fx as Decode>::ssz_fixed_len() == <FxT as Decode>::ssz_fixed_len();
+            ok &= matches!(std::panic::catch_unwind(|| Fx::from_ssz_bytes(&e)), Ok(Ok(ref y)) if *y == x);
+            let l = Lead { out: b, fb: b ^ 5, fc: a };
+            let lt = LeadT { fa: b, fb: b ^ 5, fc: a };
+            let el = l.as_ssz_bytes();
+            ok &= el == lt.as_ssz_bytes();
+            ok &= matches!(std::panic::catch_unwind(|| Lead::from_ssz_bytes(&el)), Ok(Ok(ref y)) if *y == l);
+            for (v1, v2) in [(vec![], vec![]), (vec![1u8, 2, 3], vec![9u16]), (vec![0u8; 5], vec![1u16, 2, 3])] {
+                let y = Vr { out: b, fb: v1.clone(), fc: c, fd: v2.clone() };
+                let yt = VrT { fa: b, fb: v1.clone(), fc: c, fd: v2.clone() };
+                let ey = y.as_ssz_bytes();
+                ok &= ey == yt.as_ssz_bytes() && y.ssz_bytes_len() == ey.len();
+                ok &= matches!(std::panic::catch_unwind(|| Vr::from_ssz_bytes(&ey)), Ok(Ok(ref z)) if *z == y);
+                let mut buf = vec![0xEE];
+                y.ssz_append(&mut buf);
+                ok &= buf[1..] == ey[..];
+            }
+        }
+        println!("out\t{}", if ok { "pass" } else { "fail" });
+    }
+}
+
 #[cfg(feature = "h_var")]
-hy!(m_var, var);
+mod m_var {
+    use super::*;
+    #[derive(Encode, Decode, PartialEq, Debug, Clone)]
+    pub struct Fx { pub fa: u8, pub var: usize, pub fc: u16 }
+    #[derive(Encode, Decode, PartialEq, Debug, Clone)]
+    pub struct FxT { pub fa: u8, pub fb: usize, pub fc: u16 }
+    #[derive(Encode, Decode, PartialEq, Debug, Clone)]
+    pub struct Vr { pub var: usize, pub fb: Vec<u8>, pub fc: u16, pub fd: Vec<u16> }
+    #[derive(Encode, Decode, PartialEq, Debug, Clone)]
+    pub struct VrT { pub fa: usize, pub fb: Vec<u8>, pub fc: u16, pub fd: Vec<u16> }
+    #[derive(Encode, Decode, PartialEq, Debug, Clone)]
+    pub struct Lead { pub var: usize, pub fb: usize, pub fc: u8 }
+    #[derive(Encode, Decode, PartialEq, Debug, Clone)]
+    pub struct LeadT { pub fa: usize, pub fb: usize, pub fc: u8 }
+    pub fn run() {
+        let mut ok = true;
+        for (a, b, c) in [(1u8, 2usize, 3u16), (0xff, 0x0102_0304_0506_0708, 0xfffe), (7, 11, 0), (0, usize::MAX, 9)] {
+            let x = Fx { fa: a, var: b, fc: c };
+            let t = FxT { fa: a, fb: b, fc: c };
+            let e = x.as_ssz_bytes();
+            ok &= e == t.as_ssz_bytes() && x.ssz_bytes_len() == e.len();
+            ok &= <Fx as Encode>::ssz_fixed_len() == <FxT as Encode>::ssz_fixed_len() && <Fx as Decode>::ssz_fixed_len() == <FxT as Decode>::ssz_fixed_len();
+            ok &= matches!(std::panic::catch_unwind(|| Fx::from_ssz_bytes(&e)), Ok(Ok(ref y)) if *y == x);
+            let l = Lead { var: b, fb: b ^ 5, fc: a };
+            let lt = LeadT { fa: b, fb: b ^ 5, fc: a };
+            let el = l.as_ssz_bytes();
+            ok &= el == lt.as_ssz_bytes();
+            ok &= matches!(std::panic::catch_unwind(|| Lead::from_ssz_bytes(&el)), Ok(Ok(ref y)) if *y == l);
+            for (v1, v2) in [(vec![], vec![]), (vec![1u8, 2, 3], vec![9u16]), (vec![0u8; 5], vec![1u16, 2, 3])] {
+                let y = Vr { var: b, fb: v1.clone(), fc: c, fd: v2.clone() };
+                let yt = VrT { fa: b, fb: v1.clone(), fc: c, fd: v2.clone() };
+                let ey = y.as_ssz_bytes();
+                ok &= ey == yt.as_ssz_bytes() && y.ssz_bytes_len() == ey.len();
+                ok &= matches!(std::panic::catch_unwind(|| Vr::from_ssz_bytes(&ey)), Ok(Ok(ref z)) if *z == y);
+                let mut buf = vec![0xEE];
+                y.ssz_append(&mut buf);
+                ok &= buf[1..] == ey[..];
+            }
+        }
+        println!("var\t{}", if ok { "pass" } else { "fail" });
+    }
+}
 
 fn main() {
     std::panic::set_hook(Box::new(|_| {}));
     #[cfg(feature = "h_start")]
-    m_start::run("start");
+    m_start::run();
     #[cfg(feature = "h_end")]
-    m_end::run("end");
+    m_end::run();
     #[cfg(feature = "h_len")]
-    m_len::run("len");
+    m_len::run();
     #[cfg(feature = "h_offset")]
-    m_offset::run("offset");
+    m_offset::run();
     #[cfg(feature = "h_index")]
-    m_index::run("index");
+    m_index::run();
     #[cfg(feature = "h_i")]
-    m_i::run("i");
+    m_i::run();
     #[cfg(feature = "h_n")]
-    m_n::run("n");
+    m_n::run();
     #[cfg(feature = "h_x")]
-    m_x::run("x");
+    m_x::run();
     #[cfg(feature = "h_buf")]
-    m_buf::run("buf");
+    m_buf::run();
     #[cfg(feature = "h_items")]
-    m_items::run("items");
-    #[cfg(feature = "h_slice")]
-    m_slice::run("slice");
+    m_items::run();
     #[cfg(feature = "h_builder")]
-    m_builder::run("builder");
-    #[cfg(feature = "h_decoder")]
-    m_decoder::run("decoder");
+    m_builder::run();
     #[cfg(feature = "h_encoder")]
-    m_encoder::run("encoder");
+    m_encoder::run();
     #[cfg(feature = "h_value")]
-    m_value::run("value");
+    m_value::run();
     #[cfg(feature = "h_result")]
-    m_result::run("result");
+    m_result::run();
     #[cfg(feature = "h_res")]
-    m_res::run("res");
+    m_res::run();
     #[cfg(feature = "h_tmp")]
-    m_tmp::run("tmp");
+    m_tmp::run();
     #[cfg(feature = "h_idx")]
-    m_idx::run("idx");
+    m_idx::run();
     #[cfg(feature = "h_pos")]
-    m_pos::run("pos");
+    m_pos::run();
     #[cfg(feature = "h_cursor")]
-    m_cursor::run("cursor");
+    m_cursor::run();
     #[cfg(feature = "h_total")]
-    m_total::run("total");
+    m_total::run();
     #[cfg(feature = "h_size")]
-    m_size::run("size");
+    m_size::run();
     #[cfg(feature = "h_count")]
-    m_count::run("count");
+    m_count::run();
     #[cfg(feature = "h_bytes_len")]
-    m_bytes_len::run("bytes_len");
+    m_bytes_len::run();
     #[cfg(feature = "h_fixed_len")]
-    m_fixed_len::run("fixed_len");
+    m_fixed_len::run();
     #[cfg(feature = "h_is_fixed")]
-    m_is_fixed::run("is_fixed");
+    m_is_fixed::run();
     #[cfg(feature = "h_selector")]
-    m_selector::run("selector");
+    m_selector::run();
     #[cfg(feature = "h_body")]
-    m_body::run("body");
+    m_body::run();
     #[cfg(feature = "h_field")]
-    m_field::run("field");
+    m_field::run();
     #[cfg(feature = "h_name")]
-    m_name::run("name");
+    m_name::run();
     #[cfg(feature = "h_item")]
-    m_item::run("item");
+    m_item::run();
     #[cfg(feature = "h_out")]
-    m_out::run("out");
+    m_out::run();
     #[cfg(feature = "h_var")]
-    m_var::run("var");
+    m_var::run();
 }
